@@ -233,606 +233,6 @@ fn main() {
     if which.is_empty() || which.contains(&"t212".to_string()) { println!("t212 {}", probe(&t_m212()) == probe(&t_b212()) && format!("{:?}", t_m212()) == format!("{:?}", t_b212())); }
     if which.is_empty() || which.contains(&"t213".to_string()) { println!("t213 {}", probe(&t_m213()) == probe(&t_b213()) && format!("{:?}", t_m213()) == format!("{:?}", t_b213())); }
     if which.is_empty() || which.contains(&"t214".to_string()) { println!("t214 {}", probe(&t_m214()) == probe(&t_b214()) && format!("{:?}", t_m214()) == format!("{:?}", t_b214())); }
-    if which.is_empty() || which.contains(&"t215".to_string()) { println!("t215 {}", probe(&t_m215()) == probe(&t_b215()) && format!("{:?}", t_m215()) == format!("{:?}", t_b215())); }
-    if which.is_empty() || which.contains(&"t216".to_string()) { println!("t216 {}", probe(&t_m216()) == probe(&t_b216()) && format!("{:?}", t_m216()) == format!("{:?}", t_b216())); }
-    if which.is_empty() || which.contains(&"t217".to_string()) { println!("t217 {}", probe(&t_m217()) == probe(&t_b217()) && format!("{:?}", t_m217()) == format!("{:?}", t_b217())); }
-    if which.is_empty() || which.contains(&"t218".to_string()) { println!("t218 {}", probe(&t_m218()) == probe(&t_b218()) && format!("{:?}", t_m218()) == format!("{:?}", t_b218())); }
-    if which.is_empty() || which.contains(&"t219".to_string()) { println!("t219 {}", probe(&t_m219()) == probe(&t_b219()) && format!("{:?}", t_m219()) == format!("{:?}", t_b219())); }
-    if which.is_empty() || which.contains(&"t220".to_string()) { println!("t220 {}", probe(&t_m220()) == probe(&t_b220()) && format!("{:?}", t_m220()) == format!("{:?}", t_b220())); }
-    if which.is_empty() || which.contains(&"t221".to_string()) { println!("t221 {}", probe(&t_m221()) == probe(&t_b221()) && format!("{:?}", t_m221()) == format!("{:?}", t_b221())); }
-    if which.is_empty() || which.contains(&"t222".to_string()) { println!("t222 {}", probe(&t_m222()) == probe(&t_b222()) && format!("{:?}", t_m222()) == format!("{:?}", t_b222())); }
-    if which.is_empty() || which.contains(&"t223".to_string()) { println!("t223 {}", probe(&t_m223()) == probe(&t_b223()) && format!("{:?}", t_m223()) == format!("{:?}", t_b223())); }
-    if which.is_empty() || which.contains(&"t224".to_string()) { println!("t224 {}", probe(&t_m224()) == probe(&t_b224()) && format!("{:?}", t_m224()) == format!("{:?}", t_b224())); }
-    if which.is_empty() || which.contains(&"t225".to_string()) { println!("t225 {}", probe(&t_m225()) == probe(&t_b225()) && format!("{:?}", t_m225()) == format!("{:?}", t_b225())); }
-    if which.is_empty() || which.contains(&"t226".to_string()) { println!("t226 {}", probe(&t_m226()) == probe(&t_b226()) && format!("{:?}", t_m226()) == format!("{:?}", t_b226())); }
-    if which.is_empty() || which.contains(&"t227".to_string()) { println!("t227 {}", probe(&t_m227()) == probe(&t_b227()) && format!("{:?}", t_m227()) == format!("{:?}", t_b227())); }
-    if which.is_empty() || which.contains(&"t228".to_string()) { println!("t228 {}", probe(&t_m228()) == probe(&t_b228()) && format!("{:?}", t_m228()) == format!("{:?}", t_b228())); }
-    if which.is_empty() || which.contains(&"t229".to_string()) { println!("t229 {}", probe(&t_m229()) == probe(&t_b229()) && format!("{:?}", t_m229()) == format!("{:?}", t_b229())); }
-    if which.is_empty() || which.contains(&"t230".to_string()) { println!("t230 {}", probe(&t_m230()) == probe(&t_b230()) && format!("{:?}", t_m230()) == format!("{:?}", t_b230())); }
-    if which.is_empty() || which.contains(&"t231".to_string()) { println!("t231 {}", probe(&t_m231()) == probe(&t_b231()) && format!("{:?}", t_m231()) == format!("{:?}", t_b231())); }
-    if which.is_empty() || which.contains(&"t232".to_string()) { println!("t232 {}", probe(&t_m232()) == probe(&t_b232()) && format!("{:?}", t_m232()) == format!("{:?}", t_b232())); }
-    if which.is_empty() || which.contains(&"t233".to_string()) { println!("t233 {}", probe(&t_m233()) == probe(&t_b233()) && format!("{:?}", t_m233()) == format!("{:?}", t_b233())); }
-    if which.is_empty() || which.contains(&"t234".to_string()) { println!("t234 {}", probe(&t_m234()) == probe(&t_b234()) && format!("{:?}", t_m234()) == format!("{:?}", t_b234())); }
-    if which.is_empty() || which.contains(&"t235".to_string()) { println!("t235 {}", probe(&t_m235()) == probe(&t_b235()) && format!("{:?}", t_m235()) == format!("{:?}", t_b235())); }
-    if which.is_empty() || which.contains(&"t236".to_string()) { println!("t236 {}", probe(&t_m236()) == probe(&t_b236()) && format!("{:?}", t_m236()) == format!("{:?}", t_b236())); }
-    if which.is_empty() || which.contains(&"t237".to_string()) { println!("t237 {}", probe(&t_m237()) == probe(&t_b237()) && format!("{:?}", t_m237()) == format!("{:?}", t_b237())); }
-    if which.is_empty() || which.contains(&"t238".to_string()) { println!("t238 {}", probe(&t_m238()) == probe(&t_b238()) && format!("{:?}", t_m238()) == format!("{:?}", t_b238())); }
-    if which.is_empty() || which.contains(&"t239".to_string()) { println!("t239 {}", probe(&t_m239()) == probe(&t_b239()) && format!("{:?}", t_m239()) == format!("{:?}", t_b239())); }
-    if which.is_empty() || which.contains(&"t240".to_string()) { println!("t240 {}", probe(&t_m240()) == probe(&t_b240()) && format!("{:?}", t_m240()) == format!("{:?}", t_b240())); }
-    if which.is_empty() || which.contains(&"t241".to_string()) { println!("t241 {}", probe(&t_m241()) == probe(&t_b241()) && format!("{:?}", t_m241()) == format!("{:?}", t_b241())); }
-    if which.is_empty() || which.contains(&"t242".to_string()) { println!("t242 {}", probe(&t_m242()) == probe(&t_b242()) && format!("{:?}", t_m242()) == format!("{:?}", t_b242())); }
-    if which.is_empty() || which.contains(&"t243".to_string()) { println!("t243 {}", probe(&t_m243()) == probe(&t_b243()) && format!("{:?}", t_m243()) == format!("{:?}", t_b243())); }
-    if which.is_empty() || which.contains(&"t244".to_string()) { println!("t244 {}", probe(&t_m244()) == probe(&t_b244()) && format!("{:?}", t_m244()) == format!("{:?}", t_b244())); }
-    if which.is_empty() || which.contains(&"t245".to_string()) { println!("t245 {}", probe(&t_m245()) == probe(&t_b245()) && format!("{:?}", t_m245()) == format!("{:?}", t_b245())); }
-    if which.is_empty() || which.contains(&"t246".to_string()) { println!("t246 {}", probe(&t_m246()) == probe(&t_b246()) && format!("{:?}", t_m246()) == format!("{:?}", t_b246())); }
-    if which.is_empty() || which.contains(&"t247".to_string()) { println!("t247 {}", probe(&t_m247()) == probe(&t_b247()) && format!("{:?}", t_m247()) == format!("{:?}", t_b247())); }
-    if which.is_empty() || which.contains(&"t248".to_string()) { println!("t248 {}", probe(&t_m248()) == probe(&t_b248()) && format!("{:?}", t_m248()) == format!("{:?}", t_b248())); }
-    if which.is_empty() || which.contains(&"t249".to_string()) { println!("t249 {}", probe(&t_m249()) == probe(&t_b249()) && format!("{:?}", t_m249()) == format!("{:?}", t_b249())); }
-    if which.is_empty() || which.contains(&"t250".to_string()) { println!("t250 {}", probe(&t_m250()) == probe(&t_b250()) && format!("{:?}", t_m250()) == format!("{:?}", t_b250())); }
-    if which.is_empty() || which.contains(&"t251".to_string()) { println!("t251 {}", probe(&t_m251()) == probe(&t_b251()) && format!("{:?}", t_m251()) == format!("{:?}", t_b251())); }
-    if which.is_empty() || which.contains(&"t252".to_string()) { println!("t252 {}", probe(&t_m252()) == probe(&t_b252()) && format!("{:?}", t_m252()) == format!("{:?}", t_b252())); }
-    if which.is_empty() || which.contains(&"t253".to_string()) { println!("t253 {}", probe(&t_m253()) == probe(&t_b253()) && format!("{:?}", t_m253()) == format!("{:?}", t_b253())); }
-    if which.is_empty() || which.contains(&"t254".to_string()) { println!("t254 {}", probe(&t_m254()) == probe(&t_b254()) && format!("{:?}", t_m254()) == format!("{:?}", t_b254())); }
-    if which.is_empty() || which.contains(&"t255".to_string()) { println!("t255 {}", probe(&t_m255()) == probe(&t_b255()) && format!("{:?}", t_m255()) == format!("{:?}", t_b255())); }
-    if which.is_empty() || which.contains(&"t256".to_string()) { println!("t256 {}", probe(&t_m256()) == probe(&t_b256()) && format!("{:?}", t_m256()) == format!("{:?}", t_b256())); }
-    if which.is_empty() || which.contains(&"t257".to_string()) { println!("t257 {}", probe(&t_m257()) == probe(&t_b257()) && format!("{:?}", t_m257()) == format!("{:?}", t_b257())); }
-    if which.is_empty() || which.contains(&"t258".to_string()) { println!("t258 {}", probe(&t_m258()) == probe(&t_b258()) && format!("{:?}", t_m258()) == format!("{:?}", t_b258())); }
-    if which.is_empty() || which.contains(&"t259".to_string()) { println!("t259 {}", probe(&t_m259()) == probe(&t_b259()) && format!("{:?}", t_m259()) == format!("{:?}", t_b259())); }
-    if which.is_empty() || which.contains(&"t260".to_string()) { println!("t260 {}", probe(&t_m260()) == probe(&t_b260()) && format!("{:?}", t_m260()) == format!("{:?}", t_b260())); }
-    if which.is_empty() || which.contains(&"t261".to_string()) { println!("t261 {}", probe(&t_m261()) == probe(&t_b261()) && format!("{:?}", t_m261()) == format!("{:?}", t_b261())); }
-    if which.is_empty() || which.contains(&"t262".to_string()) { println!("t262 {}", probe(&t_m262()) == probe(&t_b262()) && format!("{:?}", t_m262()) == format!("{:?}", t_b262())); }
-    if which.is_empty() || which.contains(&"t263".to_string()) { println!("t263 {}", probe(&t_m263()) == probe(&t_b263()) && format!("{:?}", t_m263()) == format!("{:?}", t_b263())); }
-    if which.is_empty() || which.contains(&"t264".to_string()) { println!("t264 {}", probe(&t_m264()) == probe(&t_b264()) && format!("{:?}", t_m264()) == format!("{:?}", t_b264())); }
-    if which.is_empty() || which.contains(&"t265".to_string()) { println!("t265 {}", probe(&t_m265()) == probe(&t_b265()) && format!("{:?}", t_m265()) == format!("{:?}", t_b265())); }
-    if which.is_empty() || which.contains(&"t266".to_string()) { println!("t266 {}", probe(&t_m266()) == probe(&t_b266()) && format!("{:?}", t_m266()) == format!("{:?}", t_b266())); }
-    if which.is_empty() || which.contains(&"t267".to_string()) { println!("t267 {}", probe(&t_m267()) == probe(&t_b267()) && format!("{:?}", t_m267()) == format!("{:?}", t_b267())); }
-    if which.is_empty() || which.contains(&"t268".to_string()) { println!("t268 {}", probe(&t_m268()) == probe(&t_b268()) && format!("{:?}", t_m268()) == format!("{:?}", t_b268())); }
-    if which.is_empty() || which.contains(&"t269".to_string()) { println!("t269 {}", probe(&t_m269()) == probe(&t_b269()) && format!("{:?}", t_m269()) == format!("{:?}", t_b269())); }
-    if which.is_empty() || which.contains(&"t270".to_string()) { println!("t270 {}", probe(&t_m270()) == probe(&t_b270()) && format!("{:?}", t_m270()) == format!("{:?}", t_b270())); }
-    if which.is_empty() || which.contains(&"t271".to_string()) { println!("t271 {}", probe(&t_m271()) == probe(&t_b271()) && format!("{:?}", t_m271()) == format!("{:?}", t_b271())); }
-    if which.is_empty() || which.contains(&"t272".to_string()) { println!("t272 {}", probe(&t_m272()) == probe(&t_b272()) && format!("{:?}", t_m272()) == format!("{:?}", t_b272())); }
-    if which.is_empty() || which.contains(&"t273".to_string()) { println!("t273 {}", probe(&t_m273()) == probe(&t_b273()) && format!("{:?}", t_m273()) == format!("{:?}", t_b273())); }
-    if which.is_empty() || which.contains(&"t274".to_string()) { println!("t274 {}", probe(&t_m274()) == probe(&t_b274()) && format!("{:?}", t_m274()) == format!("{:?}", t_b274())); }
-    if which.is_empty() || which.contains(&"t275".to_string()) { println!("t275 {}", probe(&t_m275()) == probe(&t_b275()) && format!("{:?}", t_m275()) == format!("{:?}", t_b275())); }
-    if which.is_empty() || which.contains(&"t276".to_string()) { println!("t276 {}", probe(&t_m276()) == probe(&t_b276()) && format!("{:?}", t_m276()) == format!("{:?}", t_b276())); }
-    if which.is_empty() || which.contains(&"t277".to_string()) { println!("t277 {}", probe(&t_m277()) == probe(&t_b277()) && format!("{:?}", t_m277()) == format!("{:?}", t_b277())); }
-    if which.is_empty() || which.contains(&"t278".to_string()) { println!("t278 {}", probe(&t_m278()) == probe(&t_b278()) && format!("{:?}", t_m278()) == format!("{:?}", t_b278())); }
-    if which.is_empty() || which.contains(&"t279".to_string()) { println!("t279 {}", probe(&t_m279()) == probe(&t_b279()) && format!("{:?}", t_m279()) == format!("{:?}", t_b279())); }
-    if which.is_empty() || which.contains(&"t280".to_string()) { println!("t280 {}", probe(&t_m280()) == probe(&t_b280()) && format!("{:?}", t_m280()) == format!("{:?}", t_b280())); }
-    if which.is_empty() || which.contains(&"t281".to_string()) { println!("t281 {}", probe(&t_m281()) == probe(&t_b281()) && format!("{:?}", t_m281()) == format!("{:?}", t_b281())); }
-    if which.is_empty() || which.contains(&"t282".to_string()) { println!("t282 {}", probe(&t_m282()) == probe(&t_b282()) && format!("{:?}", t_m282()) == format!("{:?}", t_b282())); }
-    if which.is_empty() || which.contains(&"t283".to_string()) { println!("t283 {}", probe(&t_m283()) == probe(&t_b283()) && format!("{:?}", t_m283()) == format!("{:?}", t_b283())); }
-    if which.is_empty() || which.contains(&"t284".to_string()) { println!("t284 {}", probe(&t_m284()) == probe(&t_b284()) && format!("{:?}", t_m284()) == format!("{:?}", t_b284())); }
-    if which.is_empty() || which.contains(&"t285".to_string()) { println!("t285 {}", probe(&t_m285()) == probe(&t_b285()) && format!("{:?}", t_m285()) == format!("{:?}", t_b285())); }
-    if which.is_empty() || which.contains(&"t286".to_string()) { println!("t286 {}", probe(&t_m286()) == probe(&t_b286()) && format!("{:?}", t_m286()) == format!("{:?}", t_b286())); }
-    if which.is_empty() || which.contains(&"t287".to_string()) { println!("t287 {}", probe(&t_m287()) == probe(&t_b287()) && format!("{:?}", t_m287()) == format!("{:?}", t_b287())); }
-    if which.is_empty() || which.contains(&"t288".to_string()) { println!("t288 {}", probe(&t_m288()) == probe(&t_b288()) && format!("{:?}", t_m288()) == format!("{:?}", t_b288())); }
-    if which.is_empty() || which.contains(&"t289".to_string()) { println!("t289 {}", probe(&t_m289()) == probe(&t_b289()) && format!("{:?}", t_m289()) == format!("{:?}", t_b289())); }
-    if which.is_empty() || which.contains(&"t290".to_string()) { println!("t290 {}", probe(&t_m290()) == probe(&t_b290()) && format!("{:?}", t_m290()) == format!("{:?}", t_b290())); }
-    if which.is_empty() || which.contains(&"t291".to_string()) { println!("t291 {}", probe(&t_m291()) == probe(&t_b291()) && format!("{:?}", t_m291()) == format!("{:?}", t_b291())); }
-    if which.is_empty() || which.contains(&"t292".to_string()) { println!("t292 {}", probe(&t_m292()) == probe(&t_b292()) && format!("{:?}", t_m292()) == format!("{:?}", t_b292())); }
-    if which.is_empty() || which.contains(&"t293".to_string()) { println!("t293 {}", probe(&t_m293()) == probe(&t_b293()) && format!("{:?}", t_m293()) == format!("{:?}", t_b293())); }
-    if which.is_empty() || which.contains(&"t294".to_string()) { println!("t294 {}", probe(&t_m294()) == probe(&t_b294()) && format!("{:?}", t_m294()) == format!("{:?}", t_b294())); }
-    if which.is_empty() || which.contains(&"t295".to_string()) { println!("t295 {}", probe(&t_m295()) == probe(&t_b295()) && format!("{:?}", t_m295()) == format!("{:?}", t_b295())); }
-    if which.is_empty() || which.contains(&"t296".to_string()) { println!("t296 {}", probe(&t_m296()) == probe(&t_b296()) && format!("{:?}", t_m296()) == format!("{:?}", t_b296())); }
-    if which.is_empty() || which.contains(&"t297".to_string()) { println!("t297 {}", probe(&t_m297()) == probe(&t_b297()) && format!("{:?}", t_m297()) == format!("{:?}", t_b297())); }
-    if which.is_empty() || which.contains(&"t298".to_string()) { println!("t298 {}", probe(&t_m298()) == probe(&t_b298()) && format!("{:?}", t_m298()) == format!("{:?}", t_b298())); }
-    if which.is_empty() || which.contains(&"t299".to_string()) { println!("t299 {}", probe(&t_m299()) == probe(&t_b299()) && format!("{:?}", t_m299()) == format!("{:?}", t_b299())); }
-    if which.is_empty() || which.contains(&"t300".to_string()) { println!("t300 {}", probe(&t_m300()) == probe(&t_b300()) && format!("{:?}", t_m300()) == format!("{:?}", t_b300())); }
-    if which.is_empty() || which.contains(&"t301".to_string()) { println!("t301 {}", probe(&t_m301()) == probe(&t_b301()) && format!("{:?}", t_m301()) == format!("{:?}", t_b301())); }
-    if which.is_empty() || which.contains(&"t302".to_string()) { println!("t302 {}", probe(&t_m302()) == probe(&t_b302()) && format!("{:?}", t_m302()) == format!("{:?}", t_b302())); }
-    if which.is_empty() || which.contains(&"t303".to_string()) { println!("t303 {}", probe(&t_m303()) == probe(&t_b303()) && format!("{:?}", t_m303()) == format!("{:?}", t_b303())); }
-    if which.is_empty() || which.contains(&"t304".to_string()) { println!("t304 {}", probe(&t_m304()) == probe(&t_b304()) && format!("{:?}", t_m304()) == format!("{:?}", t_b304())); }
-    if which.is_empty() || which.contains(&"t305".to_string()) { println!("t305 {}", probe(&t_m305()) == probe(&t_b305()) && format!("{:?}", t_m305()) == format!("{:?}", t_b305())); }
-    if which.is_empty() || which.contains(&"t306".to_string()) { println!("t306 {}", probe(&t_m306()) == probe(&t_b306()) && format!("{:?}", t_m306()) == format!("{:?}", t_b306())); }
-    if which.is_empty() || which.contains(&"t307".to_string()) { println!("t307 {}", probe(&t_m307()) == probe(&t_b307()) && format!("{:?}", t_m307()) == format!("{:?}", t_b307())); }
-    if which.is_empty() || which.contains(&"t308".to_string()) { println!("t308 {}", probe(&t_m308()) == probe(&t_b308()) && format!("{:?}", t_m308()) == format!("{:?}", t_b308())); }
-    if which.is_empty() || which.contains(&"t309".to_string()) { println!("t309 {}", probe(&t_m309()) == probe(&t_b309()) && format!("{:?}", t_m309()) == format!("{:?}", t_b309())); }
-    if which.is_empty() || which.contains(&"t310".to_string()) { println!("t310 {}", probe(&t_m310()) == probe(&t_b310()) && format!("{:?}", t_m310()) == format!("{:?}", t_b310())); }
-    if which.is_empty() || which.contains(&"t311".to_string()) { println!("t311 {}", probe(&t_m311()) == probe(&t_b311()) && format!("{:?}", t_m311()) == format!("{:?}", t_b311())); }
-    if which.is_empty() || which.contains(&"t312".to_string()) { println!("t312 {}", probe(&t_m312()) == probe(&t_b312()) && format!("{:?}", t_m312()) == format!("{:?}", t_b312())); }
-    if which.is_empty() || which.contains(&"t313".to_string()) { println!("t313 {}", probe(&t_m313()) == probe(&t_b313()) && format!("{:?}", t_m313()) == format!("{:?}", t_b313())); }
-    if which.is_empty() || which.contains(&"t314".to_string()) { println!("t314 {}", probe(&t_m314()) == probe(&t_b314()) && format!("{:?}", t_m314()) == format!("{:?}", t_b314())); }
-    if which.is_empty() || which.contains(&"t315".to_string()) { println!("t315 {}", probe(&t_m315()) == probe(&t_b315()) && format!("{:?}", t_m315()) == format!("{:?}", t_b315())); }
-    if which.is_empty() || which.contains(&"t316".to_string()) { println!("t316 {}", probe(&t_m316()) == probe(&t_b316()) && format!("{:?}", t_m316()) == format!("{:?}", t_b316())); }
-    if which.is_empty() || which.contains(&"t317".to_string()) { println!("t317 {}", probe(&t_m317()) == probe(&t_b317()) && format!("{:?}", t_m317()) == format!("{:?}", t_b317())); }
-    if which.is_empty() || which.contains(&"t318".to_string()) { println!("t318 {}", probe(&t_m318()) == probe(&t_b318()) && format!("{:?}", t_m318()) == format!("{:?}", t_b318())); }
-    if which.is_empty() || which.contains(&"t319".to_string()) { println!("t319 {}", probe(&t_m319()) == probe(&t_b319()) && format!("{:?}", t_m319()) == format!("{:?}", t_b319())); }
-    if which.is_empty() || which.contains(&"t320".to_string()) { println!("t320 {}", probe(&t_m320()) == probe(&t_b320()) && format!("{:?}", t_m320()) == format!("{:?}", t_b320())); }
-    if which.is_empty() || which.contains(&"t321".to_string()) { println!("t321 {}", probe(&t_m321()) == probe(&t_b321()) && format!("{:?}", t_m321()) == format!("{:?}", t_b321())); }
-    if which.is_empty() || which.contains(&"t322".to_string()) { println!("t322 {}", probe(&t_m322()) == probe(&t_b322()) && format!("{:?}", t_m322()) == format!("{:?}", t_b322())); }
-    if which.is_empty() || which.contains(&"t323".to_string()) { println!("t323 {}", probe(&t_m323()) == probe(&t_b323()) && format!("{:?}", t_m323()) == format!("{:?}", t_b323())); }
-    if which.is_empty() || which.contains(&"t324".to_string()) { println!("t324 {}", probe(&t_m324()) == probe(&t_b324()) && format!("{:?}", t_m324()) == format!("{:?}", t_b324())); }
-    if which.is_empty() || which.contains(&"t325".to_string()) { println!("t325 {}", probe(&t_m325()) == probe(&t_b325()) && format!("{:?}", t_m325()) == format!("{:?}", t_b325())); }
-    if which.is_empty() || which.contains(&"t326".to_string()) { println!("t326 {}", probe(&t_m326()) == probe(&t_b326()) && format!("{:?}", t_m326()) == format!("{:?}", t_b326())); }
-    if which.is_empty() || which.contains(&"t327".to_string()) { println!("t327 {}", probe(&t_m327()) == probe(&t_b327()) && format!("{:?}", t_m327()) == format!("{:?}", t_b327())); }
-    if which.is_empty() || which.contains(&"t328".to_string()) { println!("t328 {}", probe(&t_m328()) == probe(&t_b328()) && format!("{:?}", t_m328()) == format!("{:?}", t_b328())); }
-    if which.is_empty() || which.contains(&"t329".to_string()) { println!("t329 {}", probe(&t_m329()) == probe(&t_b329()) && format!("{:?}", t_m329()) == format!("{:?}", t_b329())); }
-    if which.is_empty() || which.contains(&"t330".to_string()) { println!("t330 {}", probe(&t_m330()) == probe(&t_b330()) && format!("{:?}", t_m330()) == format!("{:?}", t_b330())); }
-    if which.is_empty() || which.contains(&"t331".to_string()) { println!("t331 {}", probe(&t_m331()) == probe(&t_b331()) && format!("{:?}", t_m331()) == format!("{:?}", t_b331())); }
-    if which.is_empty() || which.contains(&"t332".to_string()) { println!("t332 {}", probe(&t_m332()) == probe(&t_b332()) && format!("{:?}", t_m332()) == format!("{:?}", t_b332())); }
-    if which.is_empty() || which.contains(&"t333".to_string()) { println!("t333 {}", probe(&t_m333()) == probe(&t_b333()) && format!("{:?}", t_m333()) == format!("{:?}", t_b333())); }
-    if which.is_empty() || which.contains(&"t334".to_string()) { println!("t334 {}", probe(&t_m334()) == probe(&t_b334()) && format!("{:?}", t_m334()) == format!("{:?}", t_b334())); }
-    if which.is_empty() || which.contains(&"t335".to_string()) { println!("t335 {}", probe(&t_m335()) == probe(&t_b335()) && format!("{:?}", t_m335()) == format!("{:?}", t_b335())); }
-    if which.is_empty() || which.contains(&"t336".to_string()) { println!("t336 {}", probe(&t_m336()) == probe(&t_b336()) && format!("{:?}", t_m336()) == format!("{:?}", t_b336())); }
-    if which.is_empty() || which.contains(&"t337".to_string()) { println!("t337 {}", probe(&t_m337()) == probe(&t_b337()) && format!("{:?}", t_m337()) == format!("{:?}", t_b337())); }
-    if which.is_empty() || which.contains(&"t338".to_string()) { println!("t338 {}", probe(&t_m338()) == probe(&t_b338()) && format!("{:?}", t_m338()) == format!("{:?}", t_b338())); }
-    if which.is_empty() || which.contains(&"t339".to_string()) { println!("t339 {}", probe(&t_m339()) == probe(&t_b339()) && format!("{:?}", t_m339()) == format!("{:?}", t_b339())); }
-    if which.is_empty() || which.contains(&"t340".to_string()) { println!("t340 {}", probe(&t_m340()) == probe(&t_b340()) && format!("{:?}", t_m340()) == format!("{:?}", t_b340())); }
-    if which.is_empty() || which.contains(&"t341".to_string()) { println!("t341 {}", probe(&t_m341()) == probe(&t_b341()) && format!("{:?}", t_m341()) == format!("{:?}", t_b341())); }
-    if which.is_empty() || which.contains(&"t342".to_string()) { println!("t342 {}", probe(&t_m342()) == probe(&t_b342()) && format!("{:?}", t_m342()) == format!("{:?}", t_b342())); }
-    if which.is_empty() || which.contains(&"t343".to_string()) { println!("t343 {}", probe(&t_m343()) == probe(&t_b343()) && format!("{:?}", t_m343()) == format!("{:?}", t_b343())); }
-    if which.is_empty() || which.contains(&"t344".to_string()) { println!("t344 {}", probe(&t_m344()) == probe(&t_b344()) && format!("{:?}", t_m344()) == format!("{:?}", t_b344())); }
-    if which.is_empty() || which.contains(&"t345".to_string()) { println!("t345 {}", probe(&t_m345()) == probe(&t_b345()) && format!("{:?}", t_m345()) == format!("{:?}", t_b345())); }
-    if which.is_empty() || which.contains(&"t346".to_string()) { println!("t346 {}", probe(&t_m346()) == probe(&t_b346()) && format!("{:?}", t_m346()) == format!("{:?}", t_b346())); }
-    if which.is_empty() || which.contains(&"t347".to_string()) { println!("t347 {}", probe(&t_m347()) == probe(&t_b347()) && format!("{:?}", t_m347()) == format!("{:?}", t_b347())); }
-    if which.is_empty() || which.contains(&"t348".to_string()) { println!("t348 {}", probe(&t_m348()) == probe(&t_b348()) && format!("{:?}", t_m348()) == format!("{:?}", t_b348())); }
-    if which.is_empty() || which.contains(&"t349".to_string()) { println!("t349 {}", probe(&t_m349()) == probe(&t_b349()) && format!("{:?}", t_m349()) == format!("{:?}", t_b349())); }
-    if which.is_empty() || which.contains(&"t350".to_string()) { println!("t350 {}", probe(&t_m350()) == probe(&t_b350()) && format!("{:?}", t_m350()) == format!("{:?}", t_b350())); }
-    if which.is_empty() || which.contains(&"t351".to_string()) { println!("t351 {}", probe(&t_m351()) == probe(&t_b351()) && format!("{:?}", t_m351()) == format!("{:?}", t_b351())); }
-    if which.is_empty() || which.contains(&"t352".to_string()) { println!("t352 {}", probe(&t_m352()) == probe(&t_b352()) && format!("{:?}", t_m352()) == format!("{:?}", t_b352())); }
-    if which.is_empty() || which.contains(&"t353".to_string()) { println!("t353 {}", probe(&t_m353()) == probe(&t_b353()) && format!("{:?}", t_m353()) == format!("{:?}", t_b353())); }
-    if which.is_empty() || which.contains(&"t354".to_string()) { println!("t354 {}", probe(&t_m354()) == probe(&t_b354()) && format!("{:?}", t_m354()) == format!("{:?}", t_b354())); }
-    if which.is_empty() || which.contains(&"t355".to_string()) { println!("t355 {}", probe(&t_m355()) == probe(&t_b355()) && format!("{:?}", t_m355()) == format!("{:?}", t_b355())); }
-    if which.is_empty() || which.contains(&"t356".to_string()) { println!("t356 {}", probe(&t_m356()) == probe(&t_b356()) && format!("{:?}", t_m356()) == format!("{:?}", t_b356())); }
-    if which.is_empty() || which.contains(&"t357".to_string()) { println!("t357 {}", probe(&t_m357()) == probe(&t_b357()) && format!("{:?}", t_m357()) == format!("{:?}", t_b357())); }
-    if which.is_empty() || which.contains(&"t358".to_string()) { println!("t358 {}", probe(&t_m358()) == probe(&t_b358()) && format!("{:?}", t_m358()) == format!("{:?}", t_b358())); }
-    if which.is_empty() || which.contains(&"t359".to_string()) { println!("t359 {}", probe(&t_m359()) == probe(&t_b359()) && format!("{:?}", t_m359()) == format!("{:?}", t_b359())); }
-    if which.is_empty() || which.contains(&"t360".to_string()) { println!("t360 {}", probe(&t_m360()) == probe(&t_b360()) && format!("{:?}", t_m360()) == format!("{:?}", t_b360())); }
-    if which.is_empty() || which.contains(&"t361".to_string()) { println!("t361 {}", probe(&t_m361()) == probe(&t_b361()) && format!("{:?}", t_m361()) == format!("{:?}", t_b361())); }
-    if which.is_empty() || which.contains(&"t362".to_string()) { println!("t362 {}", probe(&t_m362()) == probe(&t_b362()) && format!("{:?}", t_m362()) == format!("{:?}", t_b362())); }
-    if which.is_empty() || which.contains(&"t363".to_string()) { println!("t363 {}", probe(&t_m363()) == probe(&t_b363()) && format!("{:?}", t_m363()) == format!("{:?}", t_b363())); }
-    if which.is_empty() || which.contains(&"t364".to_string()) { println!("t364 {}", probe(&t_m364()) == probe(&t_b364()) && format!("{:?}", t_m364()) == format!("{:?}", t_b364())); }
-    if which.is_empty() || which.contains(&"t365".to_string()) { println!("t365 {}", probe(&t_m365()) == probe(&t_b365()) && format!("{:?}", t_m365()) == format!("{:?}", t_b365())); }
-    if which.is_empty() || which.contains(&"t366".to_string()) { println!("t366 {}", probe(&t_m366()) == probe(&t_b366()) && format!("{:?}", t_m366()) == format!("{:?}", t_b366())); }
-    if which.is_empty() || which.contains(&"t367".to_string()) { println!("t367 {}", probe(&t_m367()) == probe(&t_b367()) && format!("{:?}", t_m367()) == format!("{:?}", t_b367())); }
-    if which.is_empty() || which.contains(&"t368".to_string()) { println!("t368 {}", probe(&t_m368()) == probe(&t_b368()) && format!("{:?}", t_m368()) == format!("{:?}", t_b368())); }
-    if which.is_empty() || which.contains(&"t369".to_string()) { println!("t369 {}", probe(&t_m369()) == probe(&t_b369()) && format!("{:?}", t_m369()) == format!("{:?}", t_b369())); }
-    if which.is_empty() || which.contains(&"t370".to_string()) { println!("t370 {}", probe(&t_m370()) == probe(&t_b370()) && format!("{:?}", t_m370()) == format!("{:?}", t_b370())); }
-    if which.is_empty() || which.contains(&"t371".to_string()) { println!("t371 {}", probe(&t_m371()) == probe(&t_b371()) && format!("{:?}", t_m371()) == format!("{:?}", t_b371())); }
-    if which.is_empty() || which.contains(&"t372".to_string()) { println!("t372 {}", probe(&t_m372()) == probe(&t_b372()) && format!("{:?}", t_m372()) == format!("{:?}", t_b372())); }
-    if which.is_empty() || which.contains(&"t373".to_string()) { println!("t373 {}", probe(&t_m373()) == probe(&t_b373()) && format!("{:?}", t_m373()) == format!("{:?}", t_b373())); }
-    if which.is_empty() || which.contains(&"t374".to_string()) { println!("t374 {}", probe(&t_m374()) == probe(&t_b374()) && format!("{:?}", t_m374()) == format!("{:?}", t_b374())); }
-    if which.is_empty() || which.contains(&"t375".to_string()) { println!("t375 {}", probe(&t_m375()) == probe(&t_b375()) && format!("{:?}", t_m375()) == format!("{:?}", t_b375())); }
-    if which.is_empty() || which.contains(&"t376".to_string()) { println!("t376 {}", probe(&t_m376()) == probe(&t_b376()) && format!("{:?}", t_m376()) == format!("{:?}", t_b376())); }
-    if which.is_empty() || which.contains(&"t377".to_string()) { println!("t377 {}", probe(&t_m377()) == probe(&t_b377()) && format!("{:?}", t_m377()) == format!("{:?}", t_b377())); }
-    if which.is_empty() || which.contains(&"t378".to_string()) { println!("t378 {}", probe(&t_m378()) == probe(&t_b378()) && format!("{:?}", t_m378()) == format!("{:?}", t_b378())); }
-    if which.is_empty() || which.contains(&"t379".to_string()) { println!("t379 {}", probe(&t_m379()) == probe(&t_b379()) && format!("{:?}", t_m379()) == format!("{:?}", t_b379())); }
-    if which.is_empty() || which.contains(&"t380".to_string()) { println!("t380 {}", probe(&t_m380()) == probe(&t_b380()) && format!("{:?}", t_m380()) == format!("{:?}", t_b380())); }
-    if which.is_empty() || which.contains(&"t381".to_string()) { println!("t381 {}", probe(&t_m381()) == probe(&t_b381()) && format!("{:?}", t_m381()) == format!("{:?}", t_b381())); }
-    if which.is_empty() || which.contains(&"t382".to_string()) { println!("t382 {}", probe(&t_m382()) == probe(&t_b382()) && format!("{:?}", t_m382()) == format!("{:?}", t_b382())); }
-    if which.is_empty() || which.contains(&"t383".to_string()) { println!("t383 {}", probe(&t_m383()) == probe(&t_b383()) && format!("{:?}", t_m383()) == format!("{:?}", t_b383())); }
-    if which.is_empty() || which.contains(&"t384".to_string()) { println!("t384 {}", probe(&t_m384()) == probe(&t_b384()) && format!("{:?}", t_m384()) == format!("{:?}", t_b384())); }
-    if which.is_empty() || which.contains(&"t385".to_string()) { println!("t385 {}", probe(&t_m385()) == probe(&t_b385()) && format!("{:?}", t_m385()) == format!("{:?}", t_b385())); }
-    if which.is_empty() || which.contains(&"t386".to_string()) { println!("t386 {}", probe(&t_m386()) == probe(&t_b386()) && format!("{:?}", t_m386()) == format!("{:?}", t_b386())); }
-    if which.is_empty() || which.contains(&"t387".to_string()) { println!("t387 {}", probe(&t_m387()) == probe(&t_b387()) && format!("{:?}", t_m387()) == format!("{:?}", t_b387())); }
-    if which.is_empty() || which.contains(&"t388".to_string()) { println!("t388 {}", probe(&t_m388()) == probe(&t_b388()) && format!("{:?}", t_m388()) == format!("{:?}", t_b388())); }
-    if which.is_empty() || which.contains(&"t389".to_string()) { println!("t389 {}", probe(&t_m389()) == probe(&t_b389()) && format!("{:?}", t_m389()) == format!("{:?}", t_b389())); }
-    if which.is_empty() || which.contains(&"t390".to_string()) { println!("t390 {}", probe(&t_m390()) == probe(&t_b390()) && format!("{:?}", t_m390()) == format!("{:?}", t_b390())); }
-    if which.is_empty() || which.contains(&"t391".to_string()) { println!("t391 {}", probe(&t_m391()) == probe(&t_b391()) && format!("{:?}", t_m391()) == format!("{:?}", t_b391())); }
-    if which.is_empty() || which.contains(&"t392".to_string()) { println!("t392 {}", probe(&t_m392()) == probe(&t_b392()) && format!("{:?}", t_m392()) == format!("{:?}", t_b392())); }
-    if which.is_empty() || which.contains(&"t393".to_string()) { println!("t393 {}", probe(&t_m393()) == probe(&t_b393()) && format!("{:?}", t_m393()) == format!("{:?}", t_b393())); }
-    if which.is_empty() || which.contains(&"t394".to_string()) { println!("t394 {}", probe(&t_m394()) == probe(&t_b394()) && format!("{:?}", t_m394()) == format!("{:?}", t_b394())); }
-    if which.is_empty() || which.contains(&"t395".to_string()) { println!("t395 {}", probe(&t_m395()) == probe(&t_b395()) && format!("{:?}", t_m395()) == format!("{:?}", t_b395())); }
-    if which.is_empty() || which.contains(&"t396".to_string()) { println!("t396 {}", probe(&t_m396()) == probe(&t_b396()) && format!("{:?}", t_m396()) == format!("{:?}", t_b396())); }
-    if which.is_empty() || which.contains(&"t397".to_string()) { println!("t397 {}", probe(&t_m397()) == probe(&t_b397()) && format!("{:?}", t_m397()) == format!("{:?}", t_b397())); }
-    if which.is_empty() || which.contains(&"t398".to_string()) { println!("t398 {}", probe(&t_m398()) == probe(&t_b398()) && format!("{:?}", t_m398()) == format!("{:?}", t_b398())); }
-    if which.is_empty() || which.contains(&"t399".to_string()) { println!("t399 {}", probe(&t_m399()) == probe(&t_b399()) && format!("{:?}", t_m399()) == format!("{:?}", t_b399())); }
-    if which.is_empty() || which.contains(&"t400".to_string()) { println!("t400 {}", probe(&t_m400()) == probe(&t_b400()) && format!("{:?}", t_m400()) == format!("{:?}", t_b400())); }
-    if which.is_empty() || which.contains(&"t401".to_string()) { println!("t401 {}", probe(&t_m401()) == probe(&t_b401()) && format!("{:?}", t_m401()) == format!("{:?}", t_b401())); }
-    if which.is_empty() || which.contains(&"t402".to_string()) { println!("t402 {}", probe(&t_m402()) == probe(&t_b402()) && format!("{:?}", t_m402()) == format!("{:?}", t_b402())); }
-    if which.is_empty() || which.contains(&"t403".to_string()) { println!("t403 {}", probe(&t_m403()) == probe(&t_b403()) && format!("{:?}", t_m403()) == format!("{:?}", t_b403())); }
-    if which.is_empty() || which.contains(&"t404".to_string()) { println!("t404 {}", probe(&t_m404()) == probe(&t_b404()) && format!("{:?}", t_m404()) == format!("{:?}", t_b404())); }
-    if which.is_empty() || which.contains(&"t405".to_string()) { println!("t405 {}", probe(&t_m405()) == probe(&t_b405()) && format!("{:?}", t_m405()) == format!("{:?}", t_b405())); }
-    if which.is_empty() || which.contains(&"t406".to_string()) { println!("t406 {}", probe(&t_m406()) == probe(&t_b406()) && format!("{:?}", t_m406()) == format!("{:?}", t_b406())); }
-    if which.is_empty() || which.contains(&"t407".to_string()) { println!("t407 {}", probe(&t_m407()) == probe(&t_b407()) && format!("{:?}", t_m407()) == format!("{:?}", t_b407())); }
-    if which.is_empty() || which.contains(&"t408".to_string()) { println!("t408 {}", probe(&t_m408()) == probe(&t_b408()) && format!("{:?}", t_m408()) == format!("{:?}", t_b408())); }
-    if which.is_empty() || which.contains(&"t409".to_string()) { println!("t409 {}", probe(&t_m409()) == probe(&t_b409()) && format!("{:?}", t_m409()) == format!("{:?}", t_b409())); }
-    if which.is_empty() || which.contains(&"t410".to_string()) { println!("t410 {}", probe(&t_m410()) == probe(&t_b410()) && format!("{:?}", t_m410()) == format!("{:?}", t_b410())); }
-    if which.is_empty() || which.contains(&"t411".to_string()) { println!("t411 {}", probe(&t_m411()) == probe(&t_b411()) && format!("{:?}", t_m411()) == format!("{:?}", t_b411())); }
-    if which.is_empty() || which.contains(&"t412".to_string()) { println!("t412 {}", probe(&t_m412()) == probe(&t_b412()) && format!("{:?}", t_m412()) == format!("{:?}", t_b412())); }
-    if which.is_empty() || which.contains(&"t413".to_string()) { println!("t413 {}", probe(&t_m413()) == probe(&t_b413()) && format!("{:?}", t_m413()) == format!("{:?}", t_b413())); }
-    if which.is_empty() || which.contains(&"t414".to_string()) { println!("t414 {}", probe(&t_m414()) == probe(&t_b414()) && format!("{:?}", t_m414()) == format!("{:?}", t_b414())); }
-    if which.is_empty() || which.contains(&"t415".to_string()) { println!("t415 {}", probe(&t_m415()) == probe(&t_b415()) && format!("{:?}", t_m415()) == format!("{:?}", t_b415())); }
-    if which.is_empty() || which.contains(&"t416".to_string()) { println!("t416 {}", probe(&t_m416()) == probe(&t_b416()) && format!("{:?}", t_m416()) == format!("{:?}", t_b416())); }
-    if which.is_empty() || which.contains(&"t417".to_string()) { println!("t417 {}", probe(&t_m417()) == probe(&t_b417()) && format!("{:?}", t_m417()) == format!("{:?}", t_b417())); }
-    if which.is_empty() || which.contains(&"t418".to_string()) { println!("t418 {}", probe(&t_m418()) == probe(&t_b418()) && format!("{:?}", t_m418()) == format!("{:?}", t_b418())); }
-    if which.is_empty() || which.contains(&"t419".to_string()) { println!("t419 {}", probe(&t_m419()) == probe(&t_b419()) && format!("{:?}", t_m419()) == format!("{:?}", t_b419())); }
-    if which.is_empty() || which.contains(&"t420".to_string()) { println!("t420 {}", probe(&t_m420()) == probe(&t_b420()) && format!("{:?}", t_m420()) == format!("{:?}", t_b420())); }
-    if which.is_empty() || which.contains(&"t421".to_string()) { println!("t421 {}", probe(&t_m421()) == probe(&t_b421()) && format!("{:?}", t_m421()) == format!("{:?}", t_b421())); }
-    if which.is_empty() || which.contains(&"t422".to_string()) { println!("t422 {}", probe(&t_m422()) == probe(&t_b422()) && format!("{:?}", t_m422()) == format!("{:?}", t_b422())); }
-    if which.is_empty() || which.contains(&"t423".to_string()) { println!("t423 {}", probe(&t_m423()) == probe(&t_b423()) && format!("{:?}", t_m423()) == format!("{:?}", t_b423())); }
-    if which.is_empty() || which.contains(&"t424".to_string()) { println!("t424 {}", probe(&t_m424()) == probe(&t_b424()) && format!("{:?}", t_m424()) == format!("{:?}", t_b424())); }
-    if which.is_empty() || which.contains(&"t425".to_string()) { println!("t425 {}", probe(&t_m425()) == probe(&t_b425()) && format!("{:?}", t_m425()) == format!("{:?}", t_b425())); }
-    if which.is_empty() || which.contains(&"t426".to_string()) { println!("t426 {}", probe(&t_m426()) == probe(&t_b426()) && format!("{:?}", t_m426()) == format!("{:?}", t_b426())); }
-    if which.is_empty() || which.contains(&"t427".to_string()) { println!("t427 {}", probe(&t_m427()) == probe(&t_b427()) && format!("{:?}", t_m427()) == format!("{:?}", t_b427())); }
-    if which.is_empty() || which.contains(&"t428".to_string()) { println!("t428 {}", probe(&t_m428()) == probe(&t_b428()) && format!("{:?}", t_m428()) == format!("{:?}", t_b428())); }
-    if which.is_empty() || which.contains(&"t429".to_string()) { println!("t429 {}", probe(&t_m429()) == probe(&t_b429()) && format!("{:?}", t_m429()) == format!("{:?}", t_b429())); }
-    if which.is_empty() || which.contains(&"t430".to_string()) { println!("t430 {}", probe(&t_m430()) == probe(&t_b430()) && format!("{:?}", t_m430()) == format!("{:?}", t_b430())); }
-    if which.is_empty() || which.contains(&"t431".to_string()) { println!("t431 {}", probe(&t_m431()) == probe(&t_b431()) && format!("{:?}", t_m431()) == format!("{:?}", t_b431())); }
-    if which.is_empty() || which.contains(&"t432".to_string()) { println!("t432 {}", probe(&t_m432()) == probe(&t_b432()) && format!("{:?}", t_m432()) == format!("{:?}", t_b432())); }
-    if which.is_empty() || which.contains(&"t433".to_string()) { println!("t433 {}", probe(&t_m433()) == probe(&t_b433()) && format!("{:?}", t_m433()) == format!("{:?}", t_b433())); }
-    if which.is_empty() || which.contains(&"t434".to_string()) { println!("t434 {}", probe(&t_m434()) == probe(&t_b434()) && format!("{:?}", t_m434()) == format!("{:?}", t_b434())); }
-    if which.is_empty() || which.contains(&"t435".to_string()) { println!("t435 {}", probe(&t_m435()) == probe(&t_b435()) && format!("{:?}", t_m435()) == format!("{:?}", t_b435())); }
-    if which.is_empty() || which.contains(&"t436".to_string()) { println!("t436 {}", probe(&t_m436()) == probe(&t_b436()) && format!("{:?}", t_m436()) == format!("{:?}", t_b436())); }
-    if which.is_empty() || which.contains(&"t437".to_string()) { println!("t437 {}", probe(&t_m437()) == probe(&t_b437()) && format!("{:?}", t_m437()) == format!("{:?}", t_b437())); }
-    if which.is_empty() || which.contains(&"t438".to_string()) { println!("t438 {}", probe(&t_m438()) == probe(&t_b438()) && format!("{:?}", t_m438()) == format!("{:?}", t_b438())); }
-    if which.is_empty() || which.contains(&"t439".to_string()) { println!("t439 {}", probe(&t_m439()) == probe(&t_b439()) && format!("{:?}", t_m439()) == format!("{:?}", t_b439())); }
-    if which.is_empty() || which.contains(&"t440".to_string()) { println!("t440 {}", probe(&t_m440()) == probe(&t_b440()) && format!("{:?}", t_m440()) == format!("{:?}", t_b440())); }
-    if which.is_empty() || which.contains(&"t441".to_string()) { println!("t441 {}", probe(&t_m441()) == probe(&t_b441()) && format!("{:?}", t_m441()) == format!("{:?}", t_b441())); }
-    if which.is_empty() || which.contains(&"t442".to_string()) { println!("t442 {}", probe(&t_m442()) == probe(&t_b442()) && format!("{:?}", t_m442()) == format!("{:?}", t_b442())); }
-    if which.is_empty() || which.contains(&"t443".to_string()) { println!("t443 {}", probe(&t_m443()) == probe(&t_b443()) && format!("{:?}", t_m443()) == format!("{:?}", t_b443())); }
-    if which.is_empty() || which.contains(&"t444".to_string()) { println!("t444 {}", probe(&t_m444()) == probe(&t_b444()) && format!("{:?}", t_m444()) == format!("{:?}", t_b444())); }
-    if which.is_empty() || which.contains(&"t445".to_string()) { println!("t445 {}", probe(&t_m445()) == probe(&t_b445()) && format!("{:?}", t_m445()) == format!("{:?}", t_b445())); }
-    if which.is_empty() || which.contains(&"t446".to_string()) { println!("t446 {}", probe(&t_m446()) == probe(&t_b446()) && format!("{:?}", t_m446()) == format!("{:?}", t_b446())); }
-    if which.is_empty() || which.contains(&"t447".to_string()) { println!("t447 {}", probe(&t_m447()) == probe(&t_b447()) && format!("{:?}", t_m447()) == format!("{:?}", t_b447())); }
-    if which.is_empty() || which.contains(&"t448".to_string()) { println!("t448 {}", probe(&t_m448()) == probe(&t_b448()) && format!("{:?}", t_m448()) == format!("{:?}", t_b448())); }
-    if which.is_empty() || which.contains(&"t449".to_string()) { println!("t449 {}", probe(&t_m449()) == probe(&t_b449()) && format!("{:?}", t_m449()) == format!("{:?}", t_b449())); }
-    if which.is_empty() || which.contains(&"t450".to_string()) { println!("t450 {}", probe(&t_m450()) == probe(&t_b450()) && format!("{:?}", t_m450()) == format!("{:?}", t_b450())); }
-    if which.is_empty() || which.contains(&"t451".to_string()) { println!("t451 {}", probe(&t_m451()) == probe(&t_b451()) && format!("{:?}", t_m451()) == format!("{:?}", t_b451())); }
-    if which.is_empty() || which.contains(&"t452".to_string()) { println!("t452 {}", probe(&t_m452()) == probe(&t_b452()) && format!("{:?}", t_m452()) == format!("{:?}", t_b452())); }
-    if which.is_empty() || which.contains(&"t453".to_string()) { println!("t453 {}", probe(&t_m453()) == probe(&t_b453()) && format!("{:?}", t_m453()) == format!("{:?}", t_b453())); }
-    if which.is_empty() || which.contains(&"t454".to_string()) { println!("t454 {}", probe(&t_m454()) == probe(&t_b454()) && format!("{:?}", t_m454()) == format!("{:?}", t_b454())); }
-    if which.is_empty() || which.contains(&"t455".to_string()) { println!("t455 {}", probe(&t_m455()) == probe(&t_b455()) && format!("{:?}", t_m455()) == format!("{:?}", t_b455())); }
-    if which.is_empty() || which.contains(&"t456".to_string()) { println!("t456 {}", probe(&t_m456()) == probe(&t_b456()) && format!("{:?}", t_m456()) == format!("{:?}", t_b456())); }
-    if which.is_empty() || which.contains(&"t457".to_string()) { println!("t457 {}", probe(&t_m457()) == probe(&t_b457()) && format!("{:?}", t_m457()) == format!("{:?}", t_b457())); }
-    if which.is_empty() || which.contains(&"t458".to_string()) { println!("t458 {}", probe(&t_m458()) == probe(&t_b458()) && format!("{:?}", t_m458()) == format!("{:?}", t_b458())); }
-    if which.is_empty() || which.contains(&"t459".to_string()) { println!("t459 {}", probe(&t_m459()) == probe(&t_b459()) && format!("{:?}", t_m459()) == format!("{:?}", t_b459())); }
-    if which.is_empty() || which.contains(&"t460".to_string()) { println!("t460 {}", probe(&t_m460()) == probe(&t_b460()) && format!("{:?}", t_m460()) == format!("{:?}", t_b460())); }
-    if which.is_empty() || which.contains(&"t461".to_string()) { println!("t461 {}", probe(&t_m461()) == probe(&t_b461()) && format!("{:?}", t_m461()) == format!("{:?}", t_b461())); }
-    if which.is_empty() || which.contains(&"t462".to_string()) { println!("t462 {}", probe(&t_m462()) == probe(&t_b462()) && format!("{:?}", t_m462()) == format!("{:?}", t_b462())); }
-    if which.is_empty() || which.contains(&"t463".to_string()) { println!("t463 {}", probe(&t_m463()) == probe(&t_b463()) && format!("{:?}", t_m463()) == format!("{:?}", t_b463())); }
-    if which.is_empty() || which.contains(&"t464".to_string()) { println!("t464 {}", probe(&t_m464()) == probe(&t_b464()) && format!("{:?}", t_m464()) == format!("{:?}", t_b464())); }
-    if which.is_empty() || which.contains(&"t465".to_string()) { println!("t465 {}", probe(&t_m465()) == probe(&t_b465()) && format!("{:?}", t_m465()) == format!("{:?}", t_b465())); }
-    if which.is_empty() || which.contains(&"t466".to_string()) { println!("t466 {}", probe(&t_m466()) == probe(&t_b466()) && format!("{:?}", t_m466()) == format!("{:?}", t_b466())); }
-    if which.is_empty() || which.contains(&"t467".to_string()) { println!("t467 {}", probe(&t_m467()) == probe(&t_b467()) && format!("{:?}", t_m467()) == format!("{:?}", t_b467())); }
-    if which.is_empty() || which.contains(&"t468".to_string()) { println!("t468 {}", probe(&t_m468()) == probe(&t_b468()) && format!("{:?}", t_m468()) == format!("{:?}", t_b468())); }
-    if which.is_empty() || which.contains(&"t469".to_string()) { println!("t469 {}", probe(&t_m469()) == probe(&t_b469()) && format!("{:?}", t_m469()) == format!("{:?}", t_b469())); }
-    if which.is_empty() || which.contains(&"t470".to_string()) { println!("t470 {}", probe(&t_m470()) == probe(&t_b470()) && format!("{:?}", t_m470()) == format!("{:?}", t_b470())); }
-    if which.is_empty() || which.contains(&"t471".to_string()) { println!("t471 {}", probe(&t_m471()) == probe(&t_b471()) && format!("{:?}", t_m471()) == format!("{:?}", t_b471())); }
-    if which.is_empty() || which.contains(&"t472".to_string()) { println!("t472 {}", probe(&t_m472()) == probe(&t_b472()) && format!("{:?}", t_m472()) == format!("{:?}", t_b472())); }
-    if which.is_empty() || which.contains(&"t473".to_string()) { println!("t473 {}", probe(&t_m473()) == probe(&t_b473()) && format!("{:?}", t_m473()) == format!("{:?}", t_b473())); }
-    if which.is_empty() || which.contains(&"t474".to_string()) { println!("t474 {}", probe(&t_m474()) == probe(&t_b474()) && format!("{:?}", t_m474()) == format!("{:?}", t_b474())); }
-    if which.is_empty() || which.contains(&"t475".to_string()) { println!("t475 {}", probe(&t_m475()) == probe(&t_b475()) && format!("{:?}", t_m475()) == format!("{:?}", t_b475())); }
-    if which.is_empty() || which.contains(&"t476".to_string()) { println!("t476 {}", probe(&t_m476()) == probe(&t_b476()) && format!("{:?}", t_m476()) == format!("{:?}", t_b476())); }
-    if which.is_empty() || which.contains(&"t477".to_string()) { println!("t477 {}", probe(&t_m477()) == probe(&t_b477()) && format!("{:?}", t_m477()) == format!("{:?}", t_b477())); }
-    if which.is_empty() || which.contains(&"t478".to_string()) { println!("t478 {}", probe(&t_m478()) == probe(&t_b478()) && format!("{:?}", t_m478()) == format!("{:?}", t_b478())); }
-    if which.is_empty() || which.contains(&"t479".to_string()) { println!("t479 {}", probe(&t_m479()) == probe(&t_b479()) && format!("{:?}", t_m479()) == format!("{:?}", t_b479())); }
-    if which.is_empty() || which.contains(&"t480".to_string()) { println!("t480 {}", probe(&t_m480()) == probe(&t_b480()) && format!("{:?}", t_m480()) == format!("{:?}", t_b480())); }
-    if which.is_empty() || which.contains(&"t481".to_string()) { println!("t481 {}", probe(&t_m481()) == probe(&t_b481()) && format!("{:?}", t_m481()) == format!("{:?}", t_b481())); }
-    if which.is_empty() || which.contains(&"t482".to_string()) { println!("t482 {}", probe(&t_m482()) == probe(&t_b482()) && format!("{:?}", t_m482()) == format!("{:?}", t_b482())); }
-    if which.is_empty() || which.contains(&"t483".to_string()) { println!("t483 {}", probe(&t_m483()) == probe(&t_b483()) && format!("{:?}", t_m483()) == format!("{:?}", t_b483())); }
-    if which.is_empty() || which.contains(&"t484".to_string()) { println!("t484 {}", probe(&t_m484()) == probe(&t_b484()) && format!("{:?}", t_m484()) == format!("{:?}", t_b484())); }
-    if which.is_empty() || which.contains(&"t485".to_string()) { println!("t485 {}", probe(&t_m485()) == probe(&t_b485()) && format!("{:?}", t_m485()) == format!("{:?}", t_b485())); }
-    if which.is_empty() || which.contains(&"t486".to_string()) { println!("t486 {}", probe(&t_m486()) == probe(&t_b486()) && format!("{:?}", t_m486()) == format!("{:?}", t_b486())); }
-    if which.is_empty() || which.contains(&"t487".to_string()) { println!("t487 {}", probe(&t_m487()) == probe(&t_b487()) && format!("{:?}", t_m487()) == format!("{:?}", t_b487())); }
-    if which.is_empty() || which.contains(&"t488".to_string()) { println!("t488 {}", probe(&t_m488()) == probe(&t_b488()) && format!("{:?}", t_m488()) == format!("{:?}", t_b488())); }
-    if which.is_empty() || which.contains(&"t489".to_string()) { println!("t489 {}", probe(&t_m489()) == probe(&t_b489()) && format!("{:?}", t_m489()) == format!("{:?}", t_b489())); }
-    if which.is_empty() || which.contains(&"t490".to_string()) { println!("t490 {}", probe(&t_m490()) == probe(&t_b490()) && format!("{:?}", t_m490()) == format!("{:?}", t_b490())); }
-    if which.is_empty() || which.contains(&"t491".to_string()) { println!("t491 {}", probe(&t_m491()) == probe(&t_b491()) && format!("{:?}", t_m491()) == format!("{:?}", t_b491())); }
-    if which.is_empty() || which.contains(&"t492".to_string()) { println!("t492 {}", probe(&t_m492()) == probe(&t_b492()) && format!("{:?}", t_m492()) == format!("{:?}", t_b492())); }
-    if which.is_empty() || which.contains(&"t493".to_string()) { println!("t493 {}", probe(&t_m493()) == probe(&t_b493()) && format!("{:?}", t_m493()) == format!("{:?}", t_b493())); }
-    if which.is_empty() || which.contains(&"t494".to_string()) { println!("t494 {}", probe(&t_m494()) == probe(&t_b494()) && format!("{:?}", t_m494()) == format!("{:?}", t_b494())); }
-    if which.is_empty() || which.contains(&"t495".to_string()) { println!("t495 {}", probe(&t_m495()) == probe(&t_b495()) && format!("{:?}", t_m495()) == format!("{:?}", t_b495())); }
-    if which.is_empty() || which.contains(&"t496".to_string()) { println!("t496 {}", probe(&t_m496()) == probe(&t_b496()) && format!("{:?}", t_m496()) == format!("{:?}", t_b496())); }
-    if which.is_empty() || which.contains(&"t497".to_string()) { println!("t497 {}", probe(&t_m497()) == probe(&t_b497()) && format!("{:?}", t_m497()) == format!("{:?}", t_b497())); }
-    if which.is_empty() || which.contains(&"t498".to_string()) { println!("t498 {}", probe(&t_m498()) == probe(&t_b498()) && format!("{:?}", t_m498()) == format!("{:?}", t_b498())); }
-    if which.is_empty() || which.contains(&"t499".to_string()) { println!("t499 {}", probe(&t_m499()) == probe(&t_b499()) && format!("{:?}", t_m499()) == format!("{:?}", t_b499())); }
-    if which.is_empty() || which.contains(&"t500".to_string()) { println!("t500 {}", probe(&t_m500()) == probe(&t_b500()) && format!("{:?}", t_m500()) == format!("{:?}", t_b500())); }
-    if which.is_empty() || which.contains(&"t501".to_string()) { println!("t501 {}", probe(&t_m501()) == probe(&t_b501()) && format!("{:?}", t_m501()) == format!("{:?}", t_b501())); }
-    if which.is_empty() || which.contains(&"t502".to_string()) { println!("t502 {}", probe(&t_m502()) == probe(&t_b502()) && format!("{:?}", t_m502()) == format!("{:?}", t_b502())); }
-    if which.is_empty() || which.contains(&"t503".to_string()) { println!("t503 {}", probe(&t_m503()) == probe(&t_b503()) && format!("{:?}", t_m503()) == format!("{:?}", t_b503())); }
-    if which.is_empty() || which.contains(&"t504".to_string()) { println!("t504 {}", probe(&t_m504()) == probe(&t_b504()) && format!("{:?}", t_m504()) == format!("{:?}", t_b504())); }
-    if which.is_empty() || which.contains(&"t505".to_string()) { println!("t505 {}", probe(&t_m505()) == probe(&t_b505()) && format!("{:?}", t_m505()) == format!("{:?}", t_b505())); }
-    if which.is_empty() || which.contains(&"t506".to_string()) { println!("t506 {}", probe(&t_m506()) == probe(&t_b506()) && format!("{:?}", t_m506()) == format!("{:?}", t_b506())); }
-    if which.is_empty() || which.contains(&"t507".to_string()) { println!("t507 {}", probe(&t_m507()) == probe(&t_b507()) && format!("{:?}", t_m507()) == format!("{:?}", t_b507())); }
-    if which.is_empty() || which.contains(&"t508".to_string()) { println!("t508 {}", probe(&t_m508()) == probe(&t_b508()) && format!("{:?}", t_m508()) == format!("{:?}", t_b508())); }
-    if which.is_empty() || which.contains(&"t509".to_string()) { println!("t509 {}", probe(&t_m509()) == probe(&t_b509()) && format!("{:?}", t_m509()) == format!("{:?}", t_b509())); }
-    if which.is_empty() || which.contains(&"t510".to_string()) { println!("t510 {}", probe(&t_m510()) == probe(&t_b510()) && format!("{:?}", t_m510()) == format!("{:?}", t_b510())); }
-    if which.is_empty() || which.contains(&"t511".to_string()) { println!("t511 {}", probe(&t_m511()) == probe(&t_b511()) && format!("{:?}", t_m511()) == format!("{:?}", t_b511())); }
-    if which.is_empty() || which.contains(&"t512".to_string()) { println!("t512 {}", probe(&t_m512()) == probe(&t_b512()) && format!("{:?}", t_m512()) == format!("{:?}", t_b512())); }
-    if which.is_empty() || which.contains(&"t513".to_string()) { println!("t513 {}", probe(&t_m513()) == probe(&t_b513()) && format!("{:?}", t_m513()) == format!("{:?}", t_b513())); }
-    if which.is_empty() || which.contains(&"t514".to_string()) { println!("t514 {}", probe(&t_m514()) == probe(&t_b514()) && format!("{:?}", t_m514()) == format!("{:?}", t_b514())); }
-    if which.is_empty() || which.contains(&"t515".to_string()) { println!("t515 {}", probe(&t_m515()) == probe(&t_b515()) && format!("{:?}", t_m515()) == format!("{:?}", t_b515())); }
-    if which.is_empty() || which.contains(&"t516".to_string()) { println!("t516 {}", probe(&t_m516()) == probe(&t_b516()) && format!("{:?}", t_m516()) == format!("{:?}", t_b516())); }
-    if which.is_empty() || which.contains(&"t517".to_string()) { println!("t517 {}", probe(&t_m517()) == probe(&t_b517()) && format!("{:?}", t_m517()) == format!("{:?}", t_b517())); }
-    if which.is_empty() || which.contains(&"t518".to_string()) { println!("t518 {}", probe(&t_m518()) == probe(&t_b518()) && format!("{:?}", t_m518()) == format!("{:?}", t_b518())); }
-    if which.is_empty() || which.contains(&"t519".to_string()) { println!("t519 {}", probe(&t_m519()) == probe(&t_b519()) && format!("{:?}", t_m519()) == format!("{:?}", t_b519())); }
-    if which.is_empty() || which.contains(&"t520".to_string()) { println!("t520 {}", probe(&t_m520()) == probe(&t_b520()) && format!("{:?}", t_m520()) == format!("{:?}", t_b520())); }
-    if which.is_empty() || which.contains(&"t521".to_string()) { println!("t521 {}", probe(&t_m521()) == probe(&t_b521()) && format!("{:?}", t_m521()) == format!("{:?}", t_b521())); }
-    if which.is_empty() || which.contains(&"t522".to_string()) { println!("t522 {}", probe(&t_m522()) == probe(&t_b522()) && format!("{:?}", t_m522()) == format!("{:?}", t_b522())); }
-    if which.is_empty() || which.contains(&"t523".to_string()) { println!("t523 {}", probe(&t_m523()) == probe(&t_b523()) && format!("{:?}", t_m523()) == format!("{:?}", t_b523())); }
-    if which.is_empty() || which.contains(&"t524".to_string()) { println!("t524 {}", probe(&t_m524()) == probe(&t_b524()) && format!("{:?}", t_m524()) == format!("{:?}", t_b524())); }
-    if which.is_empty() || which.contains(&"t525".to_string()) { println!("t525 {}", probe(&t_m525()) == probe(&t_b525()) && format!("{:?}", t_m525()) == format!("{:?}", t_b525())); }
-    if which.is_empty() || which.contains(&"t526".to_string()) { println!("t526 {}", probe(&t_m526()) == probe(&t_b526()) && format!("{:?}", t_m526()) == format!("{:?}", t_b526())); }
-    if which.is_empty() || which.contains(&"t527".to_string()) { println!("t527 {}", probe(&t_m527()) == probe(&t_b527()) && format!("{:?}", t_m527()) == format!("{:?}", t_b527())); }
-    if which.is_empty() || which.contains(&"t528".to_string()) { println!("t528 {}", probe(&t_m528()) == probe(&t_b528()) && format!("{:?}", t_m528()) == format!("{:?}", t_b528())); }
-    if which.is_empty() || which.contains(&"t529".to_string()) { println!("t529 {}", probe(&t_m529()) == probe(&t_b529()) && format!("{:?}", t_m529()) == format!("{:?}", t_b529())); }
-    if which.is_empty() || which.contains(&"t530".to_string()) { println!("t530 {}", probe(&t_m530()) == probe(&t_b530()) && format!("{:?}", t_m530()) == format!("{:?}", t_b530())); }
-    if which.is_empty() || which.contains(&"t531".to_string()) { println!("t531 {}", probe(&t_m531()) == probe(&t_b531()) && format!("{:?}", t_m531()) == format!("{:?}", t_b531())); }
-    if which.is_empty() || which.contains(&"t532".to_string()) { println!("t532 {}", probe(&t_m532()) == probe(&t_b532()) && format!("{:?}", t_m532()) == format!("{:?}", t_b532())); }
-    if which.is_empty() || which.contains(&"t533".to_string()) { println!("t533 {}", probe(&t_m533()) == probe(&t_b533()) && format!("{:?}", t_m533()) == format!("{:?}", t_b533())); }
-    if which.is_empty() || which.contains(&"t534".to_string()) { println!("t534 {}", probe(&t_m534()) == probe(&t_b534()) && format!("{:?}", t_m534()) == format!("{:?}", t_b534())); }
-    if which.is_empty() || which.contains(&"t535".to_string()) { println!("t535 {}", probe(&t_m535()) == probe(&t_b535()) && format!("{:?}", t_m535()) == format!("{:?}", t_b535())); }
-    if which.is_empty() || which.contains(&"t536".to_string()) { println!("t536 {}", probe(&t_m536()) == probe(&t_b536()) && format!("{:?}", t_m536()) == format!("{:?}", t_b536())); }
-    if which.is_empty() || which.contains(&"t537".to_string()) { println!("t537 {}", probe(&t_m537()) == probe(&t_b537()) && format!("{:?}", t_m537()) == format!("{:?}", t_b537())); }
-    if which.is_empty() || which.contains(&"t538".to_string()) { println!("t538 {}", probe(&t_m538()) == probe(&t_b538()) && format!("{:?}", t_m538()) == format!("{:?}", t_b538())); }
-    if which.is_empty() || which.contains(&"t539".to_string()) { println!("t539 {}", probe(&t_m539()) == probe(&t_b539()) && format!("{:?}", t_m539()) == format!("{:?}", t_b539())); }
-    if which.is_empty() || which.contains(&"t540".to_string()) { println!("t540 {}", probe(&t_m540()) == probe(&t_b540()) && format!("{:?}", t_m540()) == format!("{:?}", t_b540())); }
-    if which.is_empty() || which.contains(&"t541".to_string()) { println!("t541 {}", probe(&t_m541()) == probe(&t_b541()) && format!("{:?}", t_m541()) == format!("{:?}", t_b541())); }
-    if which.is_empty() || which.contains(&"t542".to_string()) { println!("t542 {}", probe(&t_m542()) == probe(&t_b542()) && format!("{:?}", t_m542()) == format!("{:?}", t_b542())); }
-    if which.is_empty() || which.contains(&"t543".to_string()) { println!("t543 {}", probe(&t_m543()) == probe(&t_b543()) && format!("{:?}", t_m543()) == format!("{:?}", t_b543())); }
-    if which.is_empty() || which.contains(&"t544".to_string()) { println!("t544 {}", probe(&t_m544()) == probe(&t_b544()) && format!("{:?}", t_m544()) == format!("{:?}", t_b544())); }
-    if which.is_empty() || which.contains(&"t545".to_string()) { println!("t545 {}", probe(&t_m545()) == probe(&t_b545()) && format!("{:?}", t_m545()) == format!("{:?}", t_b545())); }
-    if which.is_empty() || which.contains(&"t546".to_string()) { println!("t546 {}", probe(&t_m546()) == probe(&t_b546()) && format!("{:?}", t_m546()) == format!("{:?}", t_b546())); }
-    if which.is_empty() || which.contains(&"t547".to_string()) { println!("t547 {}", probe(&t_m547()) == probe(&t_b547()) && format!("{:?}", t_m547()) == format!("{:?}", t_b547())); }
-    if which.is_empty() || which.contains(&"t548".to_string()) { println!("t548 {}", probe(&t_m548()) == probe(&t_b548()) && format!("{:?}", t_m548()) == format!("{:?}", t_b548())); }
-    if which.is_empty() || which.contains(&"t549".to_string()) { println!("t549 {}", probe(&t_m549()) == probe(&t_b549()) && format!("{:?}", t_m549()) == format!("{:?}", t_b549())); }
-    if which.is_empty() || which.contains(&"t550".to_string()) { println!("t550 {}", probe(&t_m550()) == probe(&t_b550()) && format!("{:?}", t_m550()) == format!("{:?}", t_b550())); }
-    if which.is_empty() || which.contains(&"t551".to_string()) { println!("t551 {}", probe(&t_m551()) == probe(&t_b551()) && format!("{:?}", t_m551()) == format!("{:?}", t_b551())); }
-    if which.is_empty() || which.contains(&"t552".to_string()) { println!("t552 {}", probe(&t_m552()) == probe(&t_b552()) && format!("{:?}", t_m552()) == format!("{:?}", t_b552())); }
-    if which.is_empty() || which.contains(&"t553".to_string()) { println!("t553 {}", probe(&t_m553()) == probe(&t_b553()) && format!("{:?}", t_m553()) == format!("{:?}", t_b553())); }
-    if which.is_empty() || which.contains(&"t554".to_string()) { println!("t554 {}", probe(&t_m554()) == probe(&t_b554()) && format!("{:?}", t_m554()) == format!("{:?}", t_b554())); }
-    if which.is_empty() || which.contains(&"t555".to_string()) { println!("t555 {}", probe(&t_m555()) == probe(&t_b555()) && format!("{:?}", t_m555()) == format!("{:?}", t_b555())); }
-    if which.is_empty() || which.contains(&"t556".to_string()) { println!("t556 {}", probe(&t_m556()) == probe(&t_b556()) && format!("{:?}", t_m556()) == format!("{:?}", t_b556())); }
-    if which.is_empty() || which.contains(&"t557".to_string()) { println!("t557 {}", probe(&t_m557()) == probe(&t_b557()) && format!("{:?}", t_m557()) == format!("{:?}", t_b557())); }
-    if which.is_empty() || which.contains(&"t558".to_string()) { println!("t558 {}", probe(&t_m558()) == probe(&t_b558()) && format!("{:?}", t_m558()) == format!("{:?}", t_b558())); }
-    if which.is_empty() || which.contains(&"t559".to_string()) { println!("t559 {}", probe(&t_m559()) == probe(&t_b559()) && format!("{:?}", t_m559()) == format!("{:?}", t_b559())); }
-    if which.is_empty() || which.contains(&"t560".to_string()) { println!("t560 {}", probe(&t_m560()) == probe(&t_b560()) && format!("{:?}", t_m560()) == format!("{:?}", t_b560())); }
-    if which.is_empty() || which.contains(&"t561".to_string()) { println!("t561 {}", probe(&t_m561()) == probe(&t_b561()) && format!("{:?}", t_m561()) == format!("{:?}", t_b561())); }
-    if which.is_empty() || which.contains(&"t562".to_string()) { println!("t562 {}", probe(&t_m562()) == probe(&t_b562()) && format!("{:?}", t_m562()) == format!("{:?}", t_b562())); }
-    if which.is_empty() || which.contains(&"t563".to_string()) { println!("t563 {}", probe(&t_m563()) == probe(&t_b563()) && format!("{:?}", t_m563()) == format!("{:?}", t_b563())); }
-    if which.is_empty() || which.contains(&"t564".to_string()) { println!("t564 {}", probe(&t_m564()) == probe(&t_b564()) && format!("{:?}", t_m564()) == format!("{:?}", t_b564())); }
-    if which.is_empty() || which.contains(&"t565".to_string()) { println!("t565 {}", probe(&t_m565()) == probe(&t_b565()) && format!("{:?}", t_m565()) == format!("{:?}", t_b565())); }
-    if which.is_empty() || which.contains(&"t566".to_string()) { println!("t566 {}", probe(&t_m566()) == probe(&t_b566()) && format!("{:?}", t_m566()) == format!("{:?}", t_b566())); }
-    if which.is_empty() || which.contains(&"t567".to_string()) { println!("t567 {}", probe(&t_m567()) == probe(&t_b567()) && format!("{:?}", t_m567()) == format!("{:?}", t_b567())); }
-    if which.is_empty() || which.contains(&"t568".to_string()) { println!("t568 {}", probe(&t_m568()) == probe(&t_b568()) && format!("{:?}", t_m568()) == format!("{:?}", t_b568())); }
-    if which.is_empty() || which.contains(&"t569".to_string()) { println!("t569 {}", probe(&t_m569()) == probe(&t_b569()) && format!("{:?}", t_m569()) == format!("{:?}", t_b569())); }
-    if which.is_empty() || which.contains(&"t570".to_string()) { println!("t570 {}", probe(&t_m570()) == probe(&t_b570()) && format!("{:?}", t_m570()) == format!("{:?}", t_b570())); }
-    if which.is_empty() || which.contains(&"t571".to_string()) { println!("t571 {}", probe(&t_m571()) == probe(&t_b571()) && format!("{:?}", t_m571()) == format!("{:?}", t_b571())); }
-    if which.is_empty() || which.contains(&"t572".to_string()) { println!("t572 {}", probe(&t_m572()) == probe(&t_b572()) && format!("{:?}", t_m572()) == format!("{:?}", t_b572())); }
-    if which.is_empty() || which.contains(&"t573".to_string()) { println!("t573 {}", probe(&t_m573()) == probe(&t_b573()) && format!("{:?}", t_m573()) == format!("{:?}", t_b573())); }
-    if which.is_empty() || which.contains(&"t574".to_string()) { println!("t574 {}", probe(&t_m574()) == probe(&t_b574()) && format!("{:?}", t_m574()) == format!("{:?}", t_b574())); }
-    if which.is_empty() || which.contains(&"t575".to_string()) { println!("t575 {}", probe(&t_m575()) == probe(&t_b575()) && format!("{:?}", t_m575()) == format!("{:?}", t_b575())); }
-    if which.is_empty() || which.contains(&"t576".to_string()) { println!("t576 {}", probe(&t_m576()) == probe(&t_b576()) && format!("{:?}", t_m576()) == format!("{:?}", t_b576())); }
-    if which.is_empty() || which.contains(&"t577".to_string()) { println!("t577 {}", probe(&t_m577()) == probe(&t_b577()) && format!("{:?}", t_m577()) == format!("{:?}", t_b577())); }
-    if which.is_empty() || which.contains(&"t578".to_string()) { println!("t578 {}", probe(&t_m578()) == probe(&t_b578()) && format!("{:?}", t_m578()) == format!("{:?}", t_b578())); }
-    if which.is_empty() || which.contains(&"t579".to_string()) { println!("t579 {}", probe(&t_m579()) == probe(&t_b579()) && format!("{:?}", t_m579()) == format!("{:?}", t_b579())); }
-    if which.is_empty() || which.contains(&"t580".to_string()) { println!("t580 {}", probe(&t_m580()) == probe(&t_b580()) && format!("{:?}", t_m580()) == format!("{:?}", t_b580())); }
-    if which.is_empty() || which.contains(&"t581".to_string()) { println!("t581 {}", probe(&t_m581()) == probe(&t_b581()) && format!("{:?}", t_m581()) == format!("{:?}", t_b581())); }
-    if which.is_empty() || which.contains(&"t582".to_string()) { println!("t582 {}", probe(&t_m582()) == probe(&t_b582()) && format!("{:?}", t_m582()) == format!("{:?}", t_b582())); }
-    if which.is_empty() || which.contains(&"t583".to_string()) { println!("t583 {}", probe(&t_m583()) == probe(&t_b583()) && format!("{:?}", t_m583()) == format!("{:?}", t_b583())); }
-    if which.is_empty() || which.contains(&"t584".to_string()) { println!("t584 {}", probe(&t_m584()) == probe(&t_b584()) && format!("{:?}", t_m584()) == format!("{:?}", t_b584())); }
-    if which.is_empty() || which.contains(&"t585".to_string()) { println!("t585 {}", probe(&t_m585()) == probe(&t_b585()) && format!("{:?}", t_m585()) == format!("{:?}", t_b585())); }
-    if which.is_empty() || which.contains(&"t586".to_string()) { println!("t586 {}", probe(&t_m586()) == probe(&t_b586()) && format!("{:?}", t_m586()) == format!("{:?}", t_b586())); }
-    if which.is_empty() || which.contains(&"t587".to_string()) { println!("t587 {}", probe(&t_m587()) == probe(&t_b587()) && format!("{:?}", t_m587()) == format!("{:?}", t_b587())); }
-    if which.is_empty() || which.contains(&"t588".to_string()) { println!("t588 {}", probe(&t_m588()) == probe(&t_b588()) && format!("{:?}", t_m588()) == format!("{:?}", t_b588())); }
-    if which.is_empty() || which.contains(&"t589".to_string()) { println!("t589 {}", probe(&t_m589()) == probe(&t_b589()) && format!("{:?}", t_m589()) == format!("{:?}", t_b589())); }
-    if which.is_empty() || which.contains(&"t590".to_string()) { println!("t590 {}", probe(&t_m590()) == probe(&t_b590()) && format!("{:?}", t_m590()) == format!("{:?}", t_b590())); }
-    if which.is_empty() || which.contains(&"t591".to_string()) { println!("t591 {}", probe(&t_m591()) == probe(&t_b591()) && format!("{:?}", t_m591()) == format!("{:?}", t_b591())); }
-    if which.is_empty() || which.contains(&"t592".to_string()) { println!("t592 {}", probe(&t_m592()) == probe(&t_b592()) && format!("{:?}", t_m592()) == format!("{:?}", t_b592())); }
-    if which.is_empty() || which.contains(&"t593".to_string()) { println!("t593 {}", probe(&t_m593()) == probe(&t_b593()) && format!("{:?}", t_m593()) == format!("{:?}", t_b593())); }
-    if which.is_empty() || which.contains(&"t594".to_string()) { println!("t594 {}", probe(&t_m594()) == probe(&t_b594()) && format!("{:?}", t_m594()) == format!("{:?}", t_b594())); }
-    if which.is_empty() || which.contains(&"t595".to_string()) { println!("t595 {}", probe(&t_m595()) == probe(&t_b595()) && format!("{:?}", t_m595()) == format!("{:?}", t_b595())); }
-    if which.is_empty() || which.contains(&"t596".to_string()) { println!("t596 {}", probe(&t_m596()) == probe(&t_b596()) && format!("{:?}", t_m596()) == format!("{:?}", t_b596())); }
-    if which.is_empty() || which.contains(&"t597".to_string()) { println!("t597 {}", probe(&t_m597()) == probe(&t_b597()) && format!("{:?}", t_m597()) == format!("{:?}", t_b597())); }
-    if which.is_empty() || which.contains(&"t598".to_string()) { println!("t598 {}", probe(&t_m598()) == probe(&t_b598()) && format!("{:?}", t_m598()) == format!("{:?}", t_b598())); }
-    if which.is_empty() || which.contains(&"t599".to_string()) { println!("t599 {}", probe(&t_m599()) == probe(&t_b599()) && format!("{:?}", t_m599()) == format!("{:?}", t_b599())); }
-    if which.is_empty() || which.contains(&"t600".to_string()) { println!("t600 {}", probe(&t_m600()) == probe(&t_b600()) && format!("{:?}", t_m600()) == format!("{:?}", t_b600())); }
-    if which.is_empty() || which.contains(&"t601".to_string()) { println!("t601 {}", probe(&t_m601()) == probe(&t_b601()) && format!("{:?}", t_m601()) == format!("{:?}", t_b601())); }
-    if which.is_empty() || which.contains(&"t602".to_string()) { println!("t602 {}", probe(&t_m602()) == probe(&t_b602()) && format!("{:?}", t_m602()) == format!("{:?}", t_b602())); }
-    if which.is_empty() || which.contains(&"t603".to_string()) { println!("t603 {}", probe(&t_m603()) == probe(&t_b603()) && format!("{:?}", t_m603()) == format!("{:?}", t_b603())); }
-    if which.is_empty() || which.contains(&"t604".to_string()) { println!("t604 {}", probe(&t_m604()) == probe(&t_b604()) && format!("{:?}", t_m604()) == format!("{:?}", t_b604())); }
-    if which.is_empty() || which.contains(&"t605".to_string()) { println!("t605 {}", probe(&t_m605()) == probe(&t_b605()) && format!("{:?}", t_m605()) == format!("{:?}", t_b605())); }
-    if which.is_empty() || which.contains(&"t606".to_string()) { println!("t606 {}", probe(&t_m606()) == probe(&t_b606()) && format!("{:?}", t_m606()) == format!("{:?}", t_b606())); }
-    if which.is_empty() || which.contains(&"t607".to_string()) { println!("t607 {}", probe(&t_m607()) == probe(&t_b607()) && format!("{:?}", t_m607()) == format!("{:?}", t_b607())); }
-    if which.is_empty() || which.contains(&"t608".to_string()) { println!("t608 {}", probe(&t_m608()) == probe(&t_b608()) && format!("{:?}", t_m608()) == format!("{:?}", t_b608())); }
-    if which.is_empty() || which.contains(&"t609".to_string()) { println!("t609 {}", probe(&t_m609()) == probe(&t_b609()) && format!("{:?}", t_m609()) == format!("{:?}", t_b609())); }
-    if which.is_empty() || which.contains(&"t610".to_string()) { println!("t610 {}", probe(&t_m610()) == probe(&t_b610()) && format!("{:?}", t_m610()) == format!("{:?}", t_b610())); }
-    if which.is_empty() || which.contains(&"t611".to_string()) { println!("t611 {}", probe(&t_m611()) == probe(&t_b611()) && format!("{:?}", t_m611()) == format!("{:?}", t_b611())); }
-    if which.is_empty() || which.contains(&"t612".to_string()) { println!("t612 {}", probe(&t_m612()) == probe(&t_b612()) && format!("{:?}", t_m612()) == format!("{:?}", t_b612())); }
-    if which.is_empty() || which.contains(&"t613".to_string()) { println!("t613 {}", probe(&t_m613()) == probe(&t_b613()) && format!("{:?}", t_m613()) == format!("{:?}", t_b613())); }
-    if which.is_empty() || which.contains(&"t614".to_string()) { println!("t614 {}", probe(&t_m614()) == probe(&t_b614()) && format!("{:?}", t_m614()) == format!("{:?}", t_b614())); }
-    if which.is_empty() || which.contains(&"t615".to_string()) { println!("t615 {}", probe(&t_m615()) == probe(&t_b615()) && format!("{:?}", t_m615()) == format!("{:?}", t_b615())); }
-    if which.is_empty() || which.contains(&"t616".to_string()) { println!("t616 {}", probe(&t_m616()) == probe(&t_b616()) && format!("{:?}", t_m616()) == format!("{:?}", t_b616())); }
-    if which.is_empty() || which.contains(&"t617".to_string()) { println!("t617 {}", probe(&t_m617()) == probe(&t_b617()) && format!("{:?}", t_m617()) == format!("{:?}", t_b617())); }
-    if which.is_empty() || which.contains(&"t618".to_string()) { println!("t618 {}", probe(&t_m618()) == probe(&t_b618()) && format!("{:?}", t_m618()) == format!("{:?}", t_b618())); }
-    if which.is_empty() || which.contains(&"t619".to_string()) { println!("t619 {}", probe(&t_m619()) == probe(&t_b619()) && format!("{:?}", t_m619()) == format!("{:?}", t_b619())); }
-    if which.is_empty() || which.contains(&"t620".to_string()) { println!("t620 {}", probe(&t_m620()) == probe(&t_b620()) && format!("{:?}", t_m620()) == format!("{:?}", t_b620())); }
-    if which.is_empty() || which.contains(&"t621".to_string()) { println!("t621 {}", probe(&t_m621()) == probe(&t_b621()) && format!("{:?}", t_m621()) == format!("{:?}", t_b621())); }
-    if which.is_empty() || which.contains(&"t622".to_string()) { println!("t622 {}", probe(&t_m622()) == probe(&t_b622()) && format!("{:?}", t_m622()) == format!("{:?}", t_b622())); }
-    if which.is_empty() || which.contains(&"t623".to_string()) { println!("t623 {}", probe(&t_m623()) == probe(&t_b623()) && format!("{:?}", t_m623()) == format!("{:?}", t_b623())); }
-    if which.is_empty() || which.contains(&"t624".to_string()) { println!("t624 {}", probe(&t_m624()) == probe(&t_b624()) && format!("{:?}", t_m624()) == format!("{:?}", t_b624())); }
-    if which.is_empty() || which.contains(&"t625".to_string()) { println!("t625 {}", probe(&t_m625()) == probe(&t_b625()) && format!("{:?}", t_m625()) == format!("{:?}", t_b625())); }
-    if which.is_empty() || which.contains(&"t626".to_string()) { println!("t626 {}", probe(&t_m626()) == probe(&t_b626()) && format!("{:?}", t_m626()) == format!("{:?}", t_b626())); }
-    if which.is_empty() || which.contains(&"t627".to_string()) { println!("t627 {}", probe(&t_m627()) == probe(&t_b627()) && format!("{:?}", t_m627()) == format!("{:?}", t_b627())); }
-    if which.is_empty() || which.contains(&"t628".to_string()) { println!("t628 {}", probe(&t_m628()) == probe(&t_b628()) && format!("{:?}", t_m628()) == format!("{:?}", t_b628())); }
-    if which.is_empty() || which.contains(&"t629".to_string()) { println!("t629 {}", probe(&t_m629()) == probe(&t_b629()) && format!("{:?}", t_m629()) == format!("{:?}", t_b629())); }
-    if which.is_empty() || which.contains(&"t630".to_string()) { println!("t630 {}", probe(&t_m630()) == probe(&t_b630()) && format!("{:?}", t_m630()) == format!("{:?}", t_b630())); }
-    if which.is_empty() || which.contains(&"t631".to_string()) { println!("t631 {}", probe(&t_m631()) == probe(&t_b631()) && format!("{:?}", t_m631()) == format!("{:?}", t_b631())); }
-    if which.is_empty() || which.contains(&"t632".to_string()) { println!("t632 {}", probe(&t_m632()) == probe(&t_b632()) && format!("{:?}", t_m632()) == format!("{:?}", t_b632())); }
-    if which.is_empty() || which.contains(&"t633".to_string()) { println!("t633 {}", probe(&t_m633()) == probe(&t_b633()) && format!("{:?}", t_m633()) == format!("{:?}", t_b633())); }
-    if which.is_empty() || which.contains(&"t634".to_string()) { println!("t634 {}", probe(&t_m634()) == probe(&t_b634()) && format!("{:?}", t_m634()) == format!("{:?}", t_b634())); }
-    if which.is_empty() || which.contains(&"t635".to_string()) { println!("t635 {}", probe(&t_m635()) == probe(&t_b635()) && format!("{:?}", t_m635()) == format!("{:?}", t_b635())); }
-    if which.is_empty() || which.contains(&"t636".to_string()) { println!("t636 {}", probe(&t_m636()) == probe(&t_b636()) && format!("{:?}", t_m636()) == format!("{:?}", t_b636())); }
-    if which.is_empty() || which.contains(&"t637".to_string()) { println!("t637 {}", probe(&t_m637()) == probe(&t_b637()) && format!("{:?}", t_m637()) == format!("{:?}", t_b637())); }
-    if which.is_empty() || which.contains(&"t638".to_string()) { println!("t638 {}", probe(&t_m638()) == probe(&t_b638()) && format!("{:?}", t_m638()) == format!("{:?}", t_b638())); }
-    if which.is_empty() || which.contains(&"t639".to_string()) { println!("t639 {}", probe(&t_m639()) == probe(&t_b639()) && format!("{:?}", t_m639()) == format!("{:?}", t_b639())); }
-    if which.is_empty() || which.contains(&"t640".to_string()) { println!("t640 {}", probe(&t_m640()) == probe(&t_b640()) && format!("{:?}", t_m640()) == format!("{:?}", t_b640())); }
-    if which.is_empty() || which.contains(&"t641".to_string()) { println!("t641 {}", probe(&t_m641()) == probe(&t_b641()) && format!("{:?}", t_m641()) == format!("{:?}", t_b641())); }
-    if which.is_empty() || which.contains(&"t642".to_string()) { println!("t642 {}", probe(&t_m642()) == probe(&t_b642()) && format!("{:?}", t_m642()) == format!("{:?}", t_b642())); }
-    if which.is_empty() || which.contains(&"t643".to_string()) { println!("t643 {}", probe(&t_m643()) == probe(&t_b643()) && format!("{:?}", t_m643()) == format!("{:?}", t_b643())); }
-    if which.is_empty() || which.contains(&"t644".to_string()) { println!("t644 {}", probe(&t_m644()) == probe(&t_b644()) && format!("{:?}", t_m644()) == format!("{:?}", t_b644())); }
-    if which.is_empty() || which.contains(&"t645".to_string()) { println!("t645 {}", probe(&t_m645()) == probe(&t_b645()) && format!("{:?}", t_m645()) == format!("{:?}", t_b645())); }
-    if which.is_empty() || which.contains(&"t646".to_string()) { println!("t646 {}", probe(&t_m646()) == probe(&t_b646()) && format!("{:?}", t_m646()) == format!("{:?}", t_b646())); }
-    if which.is_empty() || which.contains(&"t647".to_string()) { println!("t647 {}", probe(&t_m647()) == probe(&t_b647()) && format!("{:?}", t_m647()) == format!("{:?}", t_b647())); }
-    if which.is_empty() || which.contains(&"t648".to_string()) { println!("t648 {}", probe(&t_m648()) == probe(&t_b648()) && format!("{:?}", t_m648()) == format!("{:?}", t_b648())); }
-    if which.is_empty() || which.contains(&"t649".to_string()) { println!("t649 {}", probe(&t_m649()) == probe(&t_b649()) && format!("{:?}", t_m649()) == format!("{:?}", t_b649())); }
-    if which.is_empty() || which.contains(&"t650".to_string()) { println!("t650 {}", probe(&t_m650()) == probe(&t_b650()) && format!("{:?}", t_m650()) == format!("{:?}", t_b650())); }
-    if which.is_empty() || which.contains(&"t651".to_string()) { println!("t651 {}", probe(&t_m651()) == probe(&t_b651()) && format!("{:?}", t_m651()) == format!("{:?}", t_b651())); }
-    if which.is_empty() || which.contains(&"t652".to_string()) { println!("t652 {}", probe(&t_m652()) == probe(&t_b652()) && format!("{:?}", t_m652()) == format!("{:?}", t_b652())); }
-    if which.is_empty() || which.contains(&"t653".to_string()) { println!("t653 {}", probe(&t_m653()) == probe(&t_b653()) && format!("{:?}", t_m653()) == format!("{:?}", t_b653())); }
-    if which.is_empty() || which.contains(&"t654".to_string()) { println!("t654 {}", probe(&t_m654()) == probe(&t_b654()) && format!("{:?}", t_m654()) == format!("{:?}", t_b654())); }
-    if which.is_empty() || which.contains(&"t655".to_string()) { println!("t655 {}", probe(&t_m655()) == probe(&t_b655()) && format!("{:?}", t_m655()) == format!("{:?}", t_b655())); }
-    if which.is_empty() || which.contains(&"t656".to_string()) { println!("t656 {}", probe(&t_m656()) == probe(&t_b656()) && format!("{:?}", t_m656()) == format!("{:?}", t_b656())); }
-    if which.is_empty() || which.contains(&"t657".to_string()) { println!("t657 {}", probe(&t_m657()) == probe(&t_b657()) && format!("{:?}", t_m657()) == format!("{:?}", t_b657())); }
-    if which.is_empty() || which.contains(&"t658".to_string()) { println!("t658 {}", probe(&t_m658()) == probe(&t_b658()) && format!("{:?}", t_m658()) == format!("{:?}", t_b658())); }
-    if which.is_empty() || which.contains(&"t659".to_string()) { println!("t659 {}", probe(&t_m659()) == probe(&t_b659()) && format!("{:?}", t_m659()) == format!("{:?}", t_b659())); }
-    if which.is_empty() || which.contains(&"t660".to_string()) { println!("t660 {}", probe(&t_m660()) == probe(&t_b660()) && format!("{:?}", t_m660()) == format!("{:?}", t_b660())); }
-    if which.is_empty() || which.contains(&"t661".to_string()) { println!("t661 {}", probe(&t_m661()) == probe(&t_b661()) && format!("{:?}", t_m661()) == format!("{:?}", t_b661())); }
-    if which.is_empty() || which.contains(&"t662".to_string()) { println!("t662 {}", probe(&t_m662()) == probe(&t_b662()) && format!("{:?}", t_m662()) == format!("{:?}", t_b662())); }
-    if which.is_empty() || which.contains(&"t663".to_string()) { println!("t663 {}", probe(&t_m663()) == probe(&t_b663()) && format!("{:?}", t_m663()) == format!("{:?}", t_b663())); }
-    if which.is_empty() || which.contains(&"t664".to_string()) { println!("t664 {}", probe(&t_m664()) == probe(&t_b664()) && format!("{:?}", t_m664()) == format!("{:?}", t_b664())); }
-    if which.is_empty() || which.contains(&"t665".to_string()) { println!("t665 {}", probe(&t_m665()) == probe(&t_b665()) && format!("{:?}", t_m665()) == format!("{:?}", t_b665())); }
-    if which.is_empty() || which.contains(&"t666".to_string()) { println!("t666 {}", probe(&t_m666()) == probe(&t_b666()) && format!("{:?}", t_m666()) == format!("{:?}", t_b666())); }
-    if which.is_empty() || which.contains(&"t667".to_string()) { println!("t667 {}", probe(&t_m667()) == probe(&t_b667()) && format!("{:?}", t_m667()) == format!("{:?}", t_b667())); }
-    if which.is_empty() || which.contains(&"t668".to_string()) { println!("t668 {}", probe(&t_m668()) == probe(&t_b668()) && format!("{:?}", t_m668()) == format!("{:?}", t_b668())); }
-    if which.is_empty() || which.contains(&"t669".to_string()) { println!("t669 {}", probe(&t_m669()) == probe(&t_b669()) && format!("{:?}", t_m669()) == format!("{:?}", t_b669())); }
-    if which.is_empty() || which.contains(&"t670".to_string()) { println!("t670 {}", probe(&t_m670()) == probe(&t_b670()) && format!("{:?}", t_m670()) == format!("{:?}", t_b670())); }
-    if which.is_empty() || which.contains(&"t671".to_string()) { println!("t671 {}", probe(&t_m671()) == probe(&t_b671()) && format!("{:?}", t_m671()) == format!("{:?}", t_b671())); }
-    if which.is_empty() || which.contains(&"t672".to_string()) { println!("t672 {}", probe(&t_m672()) == probe(&t_b672()) && format!("{:?}", t_m672()) == format!("{:?}", t_b672())); }
-    if which.is_empty() || which.contains(&"t673".to_string()) { println!("t673 {}", probe(&t_m673()) == probe(&t_b673()) && format!("{:?}", t_m673()) == format!("{:?}", t_b673())); }
-    if which.is_empty() || which.contains(&"t674".to_string()) { println!("t674 {}", probe(&t_m674()) == probe(&t_b674()) && format!("{:?}", t_m674()) == format!("{:?}", t_b674())); }
-    if which.is_empty() || which.contains(&"t675".to_string()) { println!("t675 {}", probe(&t_m675()) == probe(&t_b675()) && format!("{:?}", t_m675()) == format!("{:?}", t_b675())); }
-    if which.is_empty() || which.contains(&"t676".to_string()) { println!("t676 {}", probe(&t_m676()) == probe(&t_b676()) && format!("{:?}", t_m676()) == format!("{:?}", t_b676())); }
-    if which.is_empty() || which.contains(&"t677".to_string()) { println!("t677 {}", probe(&t_m677()) == probe(&t_b677()) && format!("{:?}", t_m677()) == format!("{:?}", t_b677())); }
-    if which.is_empty() || which.contains(&"t678".to_string()) { println!("t678 {}", probe(&t_m678()) == probe(&t_b678()) && format!("{:?}", t_m678()) == format!("{:?}", t_b678())); }
-    if which.is_empty() || which.contains(&"t679".to_string()) { println!("t679 {}", probe(&t_m679()) == probe(&t_b679()) && format!("{:?}", t_m679()) == format!("{:?}", t_b679())); }
-    if which.is_empty() || which.contains(&"t680".to_string()) { println!("t680 {}", probe(&t_m680()) == probe(&t_b680()) && format!("{:?}", t_m680()) == format!("{:?}", t_b680())); }
-    if which.is_empty() || which.contains(&"t681".to_string()) { println!("t681 {}", probe(&t_m681()) == probe(&t_b681()) && format!("{:?}", t_m681()) == format!("{:?}", t_b681())); }
-    if which.is_empty() || which.contains(&"t682".to_string()) { println!("t682 {}", probe(&t_m682()) == probe(&t_b682()) && format!("{:?}", t_m682()) == format!("{:?}", t_b682())); }
-    if which.is_empty() || which.contains(&"t683".to_string()) { println!("t683 {}", probe(&t_m683()) == probe(&t_b683()) && format!("{:?}", t_m683()) == format!("{:?}", t_b683())); }
-    if which.is_empty() || which.contains(&"t684".to_string()) { println!("t684 {}", probe(&t_m684()) == probe(&t_b684()) && format!("{:?}", t_m684()) == format!("{:?}", t_b684())); }
-    if which.is_empty() || which.contains(&"t685".to_string()) { println!("t685 {}", probe(&t_m685()) == probe(&t_b685()) && format!("{:?}", t_m685()) == format!("{:?}", t_b685())); }
-    if which.is_empty() || which.contains(&"t686".to_string()) { println!("t686 {}", probe(&t_m686()) == probe(&t_b686()) && format!("{:?}", t_m686()) == format!("{:?}", t_b686())); }
-    if which.is_empty() || which.contains(&"t687".to_string()) { println!("t687 {}", probe(&t_m687()) == probe(&t_b687()) && format!("{:?}", t_m687()) == format!("{:?}", t_b687())); }
-    if which.is_empty() || which.contains(&"t688".to_string()) { println!("t688 {}", probe(&t_m688()) == probe(&t_b688()) && format!("{:?}", t_m688()) == format!("{:?}", t_b688())); }
-    if which.is_empty() || which.contains(&"t689".to_string()) { println!("t689 {}", probe(&t_m689()) == probe(&t_b689()) && format!("{:?}", t_m689()) == format!("{:?}", t_b689())); }
-    if which.is_empty() || which.contains(&"t690".to_string()) { println!("t690 {}", probe(&t_m690()) == probe(&t_b690()) && format!("{:?}", t_m690()) == format!("{:?}", t_b690())); }
-    if which.is_empty() || which.contains(&"t691".to_string()) { println!("t691 {}", probe(&t_m691()) == probe(&t_b691()) && format!("{:?}", t_m691()) == format!("{:?}", t_b691())); }
-    if which.is_empty() || which.contains(&"t692".to_string()) { println!("t692 {}", probe(&t_m692()) == probe(&t_b692()) && format!("{:?}", t_m692()) == format!("{:?}", t_b692())); }
-    if which.is_empty() || which.contains(&"t693".to_string()) { println!("t693 {}", probe(&t_m693()) == probe(&t_b693()) && format!("{:?}", t_m693()) == format!("{:?}", t_b693())); }
-    if which.is_empty() || which.contains(&"t694".to_string()) { println!("t694 {}", probe(&t_m694()) == probe(&t_b694()) && format!("{:?}", t_m694()) == format!("{:?}", t_b694())); }
-    if which.is_empty() || which.contains(&"t695".to_string()) { println!("t695 {}", probe(&t_m695()) == probe(&t_b695()) && format!("{:?}", t_m695()) == format!("{:?}", t_b695())); }
-    if which.is_empty() || which.contains(&"t696".to_string()) { println!("t696 {}", probe(&t_m696()) == probe(&t_b696()) && format!("{:?}", t_m696()) == format!("{:?}", t_b696())); }
-    if which.is_empty() || which.contains(&"t697".to_string()) { println!("t697 {}", probe(&t_m697()) == probe(&t_b697()) && format!("{:?}", t_m697()) == format!("{:?}", t_b697())); }
-    if which.is_empty() || which.contains(&"t698".to_string()) { println!("t698 {}", probe(&t_m698()) == probe(&t_b698()) && format!("{:?}", t_m698()) == format!("{:?}", t_b698())); }
-    if which.is_empty() || which.contains(&"t699".to_string()) { println!("t699 {}", probe(&t_m699()) == probe(&t_b699()) && format!("{:?}", t_m699()) == format!("{:?}", t_b699())); }
-    if which.is_empty() || which.contains(&"t700".to_string()) { println!("t700 {}", probe(&t_m700()) == probe(&t_b700()) && format!("{:?}", t_m700()) == format!("{:?}", t_b700())); }
-    if which.is_empty() || which.contains(&"t701".to_string()) { println!("t701 {}", probe(&t_m701()) == probe(&t_b701()) && format!("{:?}", t_m701()) == format!("{:?}", t_b701())); }
-    if which.is_empty() || which.contains(&"t702".to_string()) { println!("t702 {}", probe(&t_m702()) == probe(&t_b702()) && format!("{:?}", t_m702()) == format!("{:?}", t_b702())); }
-    if which.is_empty() || which.contains(&"t703".to_string()) { println!("t703 {}", probe(&t_m703()) == probe(&t_b703()) && format!("{:?}", t_m703()) == format!("{:?}", t_b703())); }
-    if which.is_empty() || which.contains(&"t704".to_string()) { println!("t704 {}", probe(&t_m704()) == probe(&t_b704()) && format!("{:?}", t_m704()) == format!("{:?}", t_b704())); }
-    if which.is_empty() || which.contains(&"t705".to_string()) { println!("t705 {}", probe(&t_m705()) == probe(&t_b705()) && format!("{:?}", t_m705()) == format!("{:?}", t_b705())); }
-    if which.is_empty() || which.contains(&"t706".to_string()) { println!("t706 {}", probe(&t_m706()) == probe(&t_b706()) && format!("{:?}", t_m706()) == format!("{:?}", t_b706())); }
-    if which.is_empty() || which.contains(&"t707".to_string()) { println!("t707 {}", probe(&t_m707()) == probe(&t_b707()) && format!("{:?}", t_m707()) == format!("{:?}", t_b707())); }
-    if which.is_empty() || which.contains(&"t708".to_string()) { println!("t708 {}", probe(&t_m708()) == probe(&t_b708()) && format!("{:?}", t_m708()) == format!("{:?}", t_b708())); }
-    if which.is_empty() || which.contains(&"t709".to_string()) { println!("t709 {}", probe(&t_m709()) == probe(&t_b709()) && format!("{:?}", t_m709()) == format!("{:?}", t_b709())); }
-    if which.is_empty() || which.contains(&"t710".to_string()) { println!("t710 {}", probe(&t_m710()) == probe(&t_b710()) && format!("{:?}", t_m710()) == format!("{:?}", t_b710())); }
-    if which.is_empty() || which.contains(&"t711".to_string()) { println!("t711 {}", probe(&t_m711()) == probe(&t_b711()) && format!("{:?}", t_m711()) == format!("{:?}", t_b711())); }
-    if which.is_empty() || which.contains(&"t712".to_string()) { println!("t712 {}", probe(&t_m712()) == probe(&t_b712()) && format!("{:?}", t_m712()) == format!("{:?}", t_b712())); }
-    if which.is_empty() || which.contains(&"t713".to_string()) { println!("t713 {}", probe(&t_m713()) == probe(&t_b713()) && format!("{:?}", t_m713()) == format!("{:?}", t_b713())); }
-    if which.is_empty() || which.contains(&"t714".to_string()) { println!("t714 {}", probe(&t_m714()) == probe(&t_b714()) && format!("{:?}", t_m714()) == format!("{:?}", t_b714())); }
-    if which.is_empty() || which.contains(&"t715".to_string()) { println!("t715 {}", probe(&t_m715()) == probe(&t_b715()) && format!("{:?}", t_m715()) == format!("{:?}", t_b715())); }
-    if which.is_empty() || which.contains(&"t716".to_string()) { println!("t716 {}", probe(&t_m716()) == probe(&t_b716()) && format!("{:?}", t_m716()) == format!("{:?}", t_b716())); }
-    if which.is_empty() || which.contains(&"t717".to_string()) { println!("t717 {}", probe(&t_m717()) == probe(&t_b717()) && format!("{:?}", t_m717()) == format!("{:?}", t_b717())); }
-    if which.is_empty() || which.contains(&"t718".to_string()) { println!("t718 {}", probe(&t_m718()) == probe(&t_b718()) && format!("{:?}", t_m718()) == format!("{:?}", t_b718())); }
-    if which.is_empty() || which.contains(&"t719".to_string()) { println!("t719 {}", probe(&t_m719()) == probe(&t_b719()) && format!("{:?}", t_m719()) == format!("{:?}", t_b719())); }
-    if which.is_empty() || which.contains(&"t720".to_string()) { println!("t720 {}", probe(&t_m720()) == probe(&t_b720()) && format!("{:?}", t_m720()) == format!("{:?}", t_b720())); }
-    if which.is_empty() || which.contains(&"t721".to_string()) { println!("t721 {}", probe(&t_m721()) == probe(&t_b721()) && format!("{:?}", t_m721()) == format!("{:?}", t_b721())); }
-    if which.is_empty() || which.contains(&"t722".to_string()) { println!("t722 {}", probe(&t_m722()) == probe(&t_b722()) && format!("{:?}", t_m722()) == format!("{:?}", t_b722())); }
-    if which.is_empty() || which.contains(&"t723".to_string()) { println!("t723 {}", probe(&t_m723()) == probe(&t_b723()) && format!("{:?}", t_m723()) == format!("{:?}", t_b723())); }
-    if which.is_empty() || which.contains(&"t724".to_string()) { println!("t724 {}", probe(&t_m724()) == probe(&t_b724()) && format!("{:?}", t_m724()) == format!("{:?}", t_b724())); }
-    if which.is_empty() || which.contains(&"t725".to_string()) { println!("t725 {}", probe(&t_m725()) == probe(&t_b725()) && format!("{:?}", t_m725()) == format!("{:?}", t_b725())); }
-    if which.is_empty() || which.contains(&"t726".to_string()) { println!("t726 {}", probe(&t_m726()) == probe(&t_b726()) && format!("{:?}", t_m726()) == format!("{:?}", t_b726())); }
-    if which.is_empty() || which.contains(&"t727".to_string()) { println!("t727 {}", probe(&t_m727()) == probe(&t_b727()) && format!("{:?}", t_m727()) == format!("{:?}", t_b727())); }
-    if which.is_empty() || which.contains(&"t728".to_string()) { println!("t728 {}", probe(&t_m728()) == probe(&t_b728()) && format!("{:?}", t_m728()) == format!("{:?}", t_b728())); }
-    if which.is_empty() || which.contains(&"t729".to_string()) { println!("t729 {}", probe(&t_m729()) == probe(&t_b729()) && format!("{:?}", t_m729()) == format!("{:?}", t_b729())); }
-    if which.is_empty() || which.contains(&"t730".to_string()) { println!("t730 {}", probe(&t_m730()) == probe(&t_b730()) && format!("{:?}", t_m730()) == format!("{:?}", t_b730())); }
-    if which.is_empty() || which.contains(&"t731".to_string()) { println!("t731 {}", probe(&t_m731()) == probe(&t_b731()) && format!("{:?}", t_m731()) == format!("{:?}", t_b731())); }
-    if which.is_empty() || which.contains(&"t732".to_string()) { println!("t732 {}", probe(&t_m732()) == probe(&t_b732()) && format!("{:?}", t_m732()) == format!("{:?}", t_b732())); }
-    if which.is_empty() || which.contains(&"t733".to_string()) { println!("t733 {}", probe(&t_m733()) == probe(&t_b733()) && format!("{:?}", t_m733()) == format!("{:?}", t_b733())); }
-    if which.is_empty() || which.contains(&"t734".to_string()) { println!("t734 {}", probe(&t_m734()) == probe(&t_b734()) && format!("{:?}", t_m734()) == format!("{:?}", t_b734())); }
-    if which.is_empty() || which.contains(&"t735".to_string()) { println!("t735 {}", probe(&t_m735()) == probe(&t_b735()) && format!("{:?}", t_m735()) == format!("{:?}", t_b735())); }
-    if which.is_empty() || which.contains(&"t736".to_string()) { println!("t736 {}", probe(&t_m736()) == probe(&t_b736()) && format!("{:?}", t_m736()) == format!("{:?}", t_b736())); }
-    if which.is_empty() || which.contains(&"t737".to_string()) { println!("t737 {}", probe(&t_m737()) == probe(&t_b737()) && format!("{:?}", t_m737()) == format!("{:?}", t_b737())); }
-    if which.is_empty() || which.contains(&"t738".to_string()) { println!("t738 {}", probe(&t_m738()) == probe(&t_b738()) && format!("{:?}", t_m738()) == format!("{:?}", t_b738())); }
-    if which.is_empty() || which.contains(&"t739".to_string()) { println!("t739 {}", probe(&t_m739()) == probe(&t_b739()) && format!("{:?}", t_m739()) == format!("{:?}", t_b739())); }
-    if which.is_empty() || which.contains(&"t740".to_string()) { println!("t740 {}", probe(&t_m740()) == probe(&t_b740()) && format!("{:?}", t_m740()) == format!("{:?}", t_b740())); }
-    if which.is_empty() || which.contains(&"t741".to_string()) { println!("t741 {}", probe(&t_m741()) == probe(&t_b741()) && format!("{:?}", t_m741()) == format!("{:?}", t_b741())); }
-    if which.is_empty() || which.contains(&"t742".to_string()) { println!("t742 {}", probe(&t_m742()) == probe(&t_b742()) && format!("{:?}", t_m742()) == format!("{:?}", t_b742())); }
-    if which.is_empty() || which.contains(&"t743".to_string()) { println!("t743 {}", probe(&t_m743()) == probe(&t_b743()) && format!("{:?}", t_m743()) == format!("{:?}", t_b743())); }
-    if which.is_empty() || which.contains(&"t744".to_string()) { println!("t744 {}", probe(&t_m744()) == probe(&t_b744()) && format!("{:?}", t_m744()) == format!("{:?}", t_b744())); }
-    if which.is_empty() || which.contains(&"t745".to_string()) { println!("t745 {}", probe(&t_m745()) == probe(&t_b745()) && format!("{:?}", t_m745()) == format!("{:?}", t_b745())); }
-    if which.is_empty() || which.contains(&"t746".to_string()) { println!("t746 {}", probe(&t_m746()) == probe(&t_b746()) && format!("{:?}", t_m746()) == format!("{:?}", t_b746())); }
-    if which.is_empty() || which.contains(&"t747".to_string()) { println!("t747 {}", probe(&t_m747()) == probe(&t_b747()) && format!("{:?}", t_m747()) == format!("{:?}", t_b747())); }
-    if which.is_empty() || which.contains(&"t748".to_string()) { println!("t748 {}", probe(&t_m748()) == probe(&t_b748()) && format!("{:?}", t_m748()) == format!("{:?}", t_b748())); }
-    if which.is_empty() || which.contains(&"t749".to_string()) { println!("t749 {}", probe(&t_m749()) == probe(&t_b749()) && format!("{:?}", t_m749()) == format!("{:?}", t_b749())); }
-    if which.is_empty() || which.contains(&"t750".to_string()) { println!("t750 {}", probe(&t_m750()) == probe(&t_b750()) && format!("{:?}", t_m750()) == format!("{:?}", t_b750())); }
-    if which.is_empty() || which.contains(&"t751".to_string()) { println!("t751 {}", probe(&t_m751()) == probe(&t_b751()) && format!("{:?}", t_m751()) == format!("{:?}", t_b751())); }
-    if which.is_empty() || which.contains(&"t752".to_string()) { println!("t752 {}", probe(&t_m752()) == probe(&t_b752()) && format!("{:?}", t_m752()) == format!("{:?}", t_b752())); }
-    if which.is_empty() || which.contains(&"t753".to_string()) { println!("t753 {}", probe(&t_m753()) == probe(&t_b753()) && format!("{:?}", t_m753()) == format!("{:?}", t_b753())); }
-    if which.is_empty() || which.contains(&"t754".to_string()) { println!("t754 {}", probe(&t_m754()) == probe(&t_b754()) && format!("{:?}", t_m754()) == format!("{:?}", t_b754())); }
-    if which.is_empty() || which.contains(&"t755".to_string()) { println!("t755 {}", probe(&t_m755()) == probe(&t_b755()) && format!("{:?}", t_m755()) == format!("{:?}", t_b755())); }
-    if which.is_empty() || which.contains(&"t756".to_string()) { println!("t756 {}", probe(&t_m756()) == probe(&t_b756()) && format!("{:?}", t_m756()) == format!("{:?}", t_b756())); }
-    if which.is_empty() || which.contains(&"t757".to_string()) { println!("t757 {}", probe(&t_m757()) == probe(&t_b757()) && format!("{:?}", t_m757()) == format!("{:?}", t_b757())); }
-    if which.is_empty() || which.contains(&"t758".to_string()) { println!("t758 {}", probe(&t_m758()) == probe(&t_b758()) && format!("{:?}", t_m758()) == format!("{:?}", t_b758())); }
-    if which.is_empty() || which.contains(&"t759".to_string()) { println!("t759 {}", probe(&t_m759()) == probe(&t_b759()) && format!("{:?}", t_m759()) == format!("{:?}", t_b759())); }
-    if which.is_empty() || which.contains(&"t760".to_string()) { println!("t760 {}", probe(&t_m760()) == probe(&t_b760()) && format!("{:?}", t_m760()) == format!("{:?}", t_b760())); }
-    if which.is_empty() || which.contains(&"t761".to_string()) { println!("t761 {}", probe(&t_m761()) == probe(&t_b761()) && format!("{:?}", t_m761()) == format!("{:?}", t_b761())); }
-    if which.is_empty() || which.contains(&"t762".to_string()) { println!("t762 {}", probe(&t_m762()) == probe(&t_b762()) && format!("{:?}", t_m762()) == format!("{:?}", t_b762())); }
-    if which.is_empty() || which.contains(&"t763".to_string()) { println!("t763 {}", probe(&t_m763()) == probe(&t_b763()) && format!("{:?}", t_m763()) == format!("{:?}", t_b763())); }
-    if which.is_empty() || which.contains(&"t764".to_string()) { println!("t764 {}", probe(&t_m764()) == probe(&t_b764()) && format!("{:?}", t_m764()) == format!("{:?}", t_b764())); }
-    if which.is_empty() || which.contains(&"t765".to_string()) { println!("t765 {}", probe(&t_m765()) == probe(&t_b765()) && format!("{:?}", t_m765()) == format!("{:?}", t_b765())); }
-    if which.is_empty() || which.contains(&"t766".to_string()) { println!("t766 {}", probe(&t_m766()) == probe(&t_b766()) && format!("{:?}", t_m766()) == format!("{:?}", t_b766())); }
-    if which.is_empty() || which.contains(&"t767".to_string()) { println!("t767 {}", probe(&t_m767()) == probe(&t_b767()) && format!("{:?}", t_m767()) == format!("{:?}", t_b767())); }
-    if which.is_empty() || which.contains(&"t768".to_string()) { println!("t768 {}", probe(&t_m768()) == probe(&t_b768()) && format!("{:?}", t_m768()) == format!("{:?}", t_b768())); }
-    if which.is_empty() || which.contains(&"t769".to_string()) { println!("t769 {}", probe(&t_m769()) == probe(&t_b769()) && format!("{:?}", t_m769()) == format!("{:?}", t_b769())); }
-    if which.is_empty() || which.contains(&"t770".to_string()) { println!("t770 {}", probe(&t_m770()) == probe(&t_b770()) && format!("{:?}", t_m770()) == format!("{:?}", t_b770())); }
-    if which.is_empty() || which.contains(&"t771".to_string()) { println!("t771 {}", probe(&t_m771()) == probe(&t_b771()) && format!("{:?}", t_m771()) == format!("{:?}", t_b771())); }
-    if which.is_empty() || which.contains(&"t772".to_string()) { println!("t772 {}", probe(&t_m772()) == probe(&t_b772()) && format!("{:?}", t_m772()) == format!("{:?}", t_b772())); }
-    if which.is_empty() || which.contains(&"t773".to_string()) { println!("t773 {}", probe(&t_m773()) == probe(&t_b773()) && format!("{:?}", t_m773()) == format!("{:?}", t_b773())); }
-    if which.is_empty() || which.contains(&"t774".to_string()) { println!("t774 {}", probe(&t_m774()) == probe(&t_b774()) && format!("{:?}", t_m774()) == format!("{:?}", t_b774())); }
-    if which.is_empty() || which.contains(&"t775".to_string()) { println!("t775 {}", probe(&t_m775()) == probe(&t_b775()) && format!("{:?}", t_m775()) == format!("{:?}", t_b775())); }
-    if which.is_empty() || which.contains(&"t776".to_string()) { println!("t776 {}", probe(&t_m776()) == probe(&t_b776()) && format!("{:?}", t_m776()) == format!("{:?}", t_b776())); }
-    if which.is_empty() || which.contains(&"t777".to_string()) { println!("t777 {}", probe(&t_m777()) == probe(&t_b777()) && format!("{:?}", t_m777()) == format!("{:?}", t_b777())); }
-    if which.is_empty() || which.contains(&"t778".to_string()) { println!("t778 {}", probe(&t_m778()) == probe(&t_b778()) && format!("{:?}", t_m778()) == format!("{:?}", t_b778())); }
-    if which.is_empty() || which.contains(&"t779".to_string()) { println!("t779 {}", probe(&t_m779()) == probe(&t_b779()) && format!("{:?}", t_m779()) == format!("{:?}", t_b779())); }
-    if which.is_empty() || which.contains(&"t780".to_string()) { println!("t780 {}", probe(&t_m780()) == probe(&t_b780()) && format!("{:?}", t_m780()) == format!("{:?}", t_b780())); }
-    if which.is_empty() || which.contains(&"t781".to_string()) { println!("t781 {}", probe(&t_m781()) == probe(&t_b781()) && format!("{:?}", t_m781()) == format!("{:?}", t_b781())); }
-    if which.is_empty() || which.contains(&"t782".to_string()) { println!("t782 {}", probe(&t_m782()) == probe(&t_b782()) && format!("{:?}", t_m782()) == format!("{:?}", t_b782())); }
-    if which.is_empty() || which.contains(&"t783".to_string()) { println!("t783 {}", probe(&t_m783()) == probe(&t_b783()) && format!("{:?}", t_m783()) == format!("{:?}", t_b783())); }
-    if which.is_empty() || which.contains(&"t784".to_string()) { println!("t784 {}", probe(&t_m784()) == probe(&t_b784()) && format!("{:?}", t_m784()) == format!("{:?}", t_b784())); }
-    if which.is_empty() || which.contains(&"t785".to_string()) { println!("t785 {}", probe(&t_m785()) == probe(&t_b785()) && format!("{:?}", t_m785()) == format!("{:?}", t_b785())); }
-    if which.is_empty() || which.contains(&"t786".to_string()) { println!("t786 {}", probe(&t_m786()) == probe(&t_b786()) && format!("{:?}", t_m786()) == format!("{:?}", t_b786())); }
-    if which.is_empty() || which.contains(&"t787".to_string()) { println!("t787 {}", probe(&t_m787()) == probe(&t_b787()) && format!("{:?}", t_m787()) == format!("{:?}", t_b787())); }
-    if which.is_empty() || which.contains(&"t788".to_string()) { println!("t788 {}", probe(&t_m788()) == probe(&t_b788()) && format!("{:?}", t_m788()) == format!("{:?}", t_b788())); }
-    if which.is_empty() || which.contains(&"t789".to_string()) { println!("t789 {}", probe(&t_m789()) == probe(&t_b789()) && format!("{:?}", t_m789()) == format!("{:?}", t_b789())); }
-    if which.is_empty() || which.contains(&"t790".to_string()) { println!("t790 {}", probe(&t_m790()) == probe(&t_b790()) && format!("{:?}", t_m790()) == format!("{:?}", t_b790())); }
-    if which.is_empty() || which.contains(&"t791".to_string()) { println!("t791 {}", probe(&t_m791()) == probe(&t_b791()) && format!("{:?}", t_m791()) == format!("{:?}", t_b791())); }
-    if which.is_empty() || which.contains(&"t792".to_string()) { println!("t792 {}", probe(&t_m792()) == probe(&t_b792()) && format!("{:?}", t_m792()) == format!("{:?}", t_b792())); }
-    if which.is_empty() || which.contains(&"t793".to_string()) { println!("t793 {}", probe(&t_m793()) == probe(&t_b793()) && format!("{:?}", t_m793()) == format!("{:?}", t_b793())); }
-    if which.is_empty() || which.contains(&"t794".to_string()) { println!("t794 {}", probe(&t_m794()) == probe(&t_b794()) && format!("{:?}", t_m794()) == format!("{:?}", t_b794())); }
-    if which.is_empty() || which.contains(&"t795".to_string()) { println!("t795 {}", probe(&t_m795()) == probe(&t_b795()) && format!("{:?}", t_m795()) == format!("{:?}", t_b795())); }
-    if which.is_empty() || which.contains(&"t796".to_string()) { println!("t796 {}", probe(&t_m796()) == probe(&t_b796()) && format!("{:?}", t_m796()) == format!("{:?}", t_b796())); }
-    if which.is_empty() || which.contains(&"t797".to_string()) { println!("t797 {}", probe(&t_m797()) == probe(&t_b797()) && format!("{:?}", t_m797()) == format!("{:?}", t_b797())); }
-    if which.is_empty() || which.contains(&"t798".to_string()) { println!("t798 {}", probe(&t_m798()) == probe(&t_b798()) && format!("{:?}", t_m798()) == format!("{:?}", t_b798())); }
-    if which.is_empty() || which.contains(&"t799".to_string()) { println!("t799 {}", probe(&t_m799()) == probe(&t_b799()) && format!("{:?}", t_m799()) == format!("{:?}", t_b799())); }
-    if which.is_empty() || which.contains(&"t800".to_string()) { println!("t800 {}", probe(&t_m800()) == probe(&t_b800()) && format!("{:?}", t_m800()) == format!("{:?}", t_b800())); }
-    if which.is_empty() || which.contains(&"t801".to_string()) { println!("t801 {}", probe(&t_m801()) == probe(&t_b801()) && format!("{:?}", t_m801()) == format!("{:?}", t_b801())); }
-    if which.is_empty() || which.contains(&"t802".to_string()) { println!("t802 {}", probe(&t_m802()) == probe(&t_b802()) && format!("{:?}", t_m802()) == format!("{:?}", t_b802())); }
-    if which.is_empty() || which.contains(&"t803".to_string()) { println!("t803 {}", probe(&t_m803()) == probe(&t_b803()) && format!("{:?}", t_m803()) == format!("{:?}", t_b803())); }
-    if which.is_empty() || which.contains(&"t804".to_string()) { println!("t804 {}", probe(&t_m804()) == probe(&t_b804()) && format!("{:?}", t_m804()) == format!("{:?}", t_b804())); }
-    if which.is_empty() || which.contains(&"t805".to_string()) { println!("t805 {}", probe(&t_m805()) == probe(&t_b805()) && format!("{:?}", t_m805()) == format!("{:?}", t_b805())); }
-    if which.is_empty() || which.contains(&"t806".to_string()) { println!("t806 {}", probe(&t_m806()) == probe(&t_b806()) && format!("{:?}", t_m806()) == format!("{:?}", t_b806())); }
-    if which.is_empty() || which.contains(&"t807".to_string()) { println!("t807 {}", probe(&t_m807()) == probe(&t_b807()) && format!("{:?}", t_m807()) == format!("{:?}", t_b807())); }
-    if which.is_empty() || which.contains(&"t808".to_string()) { println!("t808 {}", probe(&t_m808()) == probe(&t_b808()) && format!("{:?}", t_m808()) == format!("{:?}", t_b808())); }
-    if which.is_empty() || which.contains(&"t809".to_string()) { println!("t809 {}", probe(&t_m809()) == probe(&t_b809()) && format!("{:?}", t_m809()) == format!("{:?}", t_b809())); }
-    if which.is_empty() || which.contains(&"t810".to_string()) { println!("t810 {}", probe(&t_m810()) == probe(&t_b810()) && format!("{:?}", t_m810()) == format!("{:?}", t_b810())); }
-    if which.is_empty() || which.contains(&"t811".to_string()) { println!("t811 {}", probe(&t_m811()) == probe(&t_b811()) && format!("{:?}", t_m811()) == format!("{:?}", t_b811())); }
-    if which.is_empty() || which.contains(&"t812".to_string()) { println!("t812 {}", probe(&t_m812()) == probe(&t_b812()) && format!("{:?}", t_m812()) == format!("{:?}", t_b812())); }
-    if which.is_empty() || which.contains(&"t813".to_string()) { println!("t813 {}", probe(&t_m813()) == probe(&t_b813()) && format!("{:?}", t_m813()) == format!("{:?}", t_b813())); }
-    if which.is_empty() || which.contains(&"t814".to_string()) { println!("t814 {}", probe(&t_m814()) == probe(&t_b814()) && format!("{:?}", t_m814()) == format!("{:?}", t_b814())); }
     if which.is_empty() || which.contains(&"g0".to_string()) { println!("g0 {}", probe(&g_m0()) == probe(&g_b0())); }
     if which.is_empty() || which.contains(&"g1".to_string()) { println!("g1 {}", probe(&g_m1()) == probe(&g_b1())); }
     if which.is_empty() || which.contains(&"g2".to_string()) { println!("g2 {}", probe(&g_m2()) == probe(&g_b2())); }
